@@ -25,7 +25,9 @@ use zipora::io::complex_types::{ComplexSerialize, ComplexTypeConfig, ComplexType
 use zipora::io::endian::{EndianConvert, EndianIO, Endianness};
 use zipora::io::smart_ptr::{DeserializationContext, SerializableType, SerializationContext, SmartPtrConfig, SmartPtrSerialize, SmartPtrSerializer};
 use zipora::io::versioning::{Version, VersionConfig, VersionManager, VersionProxy, VersionedSerialize, VersionedSerializer};
+use zipora::io::simd_encoding::varint::{self as simd_varint, SimdVarintCodec};
 use zipora::io::zero_copy::mmap::MmapZeroCopyReader;
+use zipora::io::{choose_optimal_strategy, choose_optimal_strategy_signed, AccessPattern, SignedVarInt, VarInt, VarIntEncoder, VarIntStrategy};
 use zipora::io::{
     DataInput, DataOutput, FileDataOutput, MemoryMappedInput, MemoryMappedOutput, MmapDataInput, MultiRangeReader, RangeReader, RangeWriter, ReaderDataInput, SliceDataInput, StreamBufferConfig,
     StreamBufferedReader, StreamBufferedWriter, VecDataOutput, WriterDataOutput, ZeroCopyRead, ZeroCopyReader, ZeroCopyWrite, ZeroCopyWriter,
@@ -225,6 +227,10 @@ impl PosOut for MOut {
 trait PosIn {
     fn inp(&mut self) -> &mut dyn DataInput;
     fn pos(&self) -> u64;
+    /// the back end's other views of its cursor; Some(description) if one disagrees with `pos` over `data`
+    fn views(&self, _data: &[u8], _pos: usize) -> Option<String> {
+        None
+    }
 }
 struct RIn<'a>(ReaderDataInput<Box<dyn Read + 'a>>);
 impl<'a> PosIn for RIn<'a> {
@@ -243,6 +249,14 @@ impl<'a> PosIn for SIn<'a> {
     fn pos(&self) -> u64 {
         self.0.pos() as u64
     }
+    fn views(&self, data: &[u8], pos: usize) -> Option<String> {
+        let (rem, more) = (self.0.remaining(), self.0.has_more());
+        if rem != data.len() - pos || more != (pos < data.len()) || self.0.remaining_slice() != &data[pos..] {
+            Some(format!("remaining()={} has_more()={} remaining_slice() of {} bytes", rem, more, self.0.remaining_slice().len()))
+        } else {
+            None
+        }
+    }
 }
 struct MDIn(MmapDataInput);
 impl PosIn for MDIn {
@@ -252,6 +266,13 @@ impl PosIn for MDIn {
     fn pos(&self) -> u64 {
         self.0.pos() as u64
     }
+    fn views(&self, data: &[u8], pos: usize) -> Option<String> {
+        if pos > data.len() || self.0.len() != data.len() || self.0.remaining() != data.len() - pos || self.0.remaining_slice() != &data[pos..] {
+            Some(format!("len()={} remaining()={}", self.0.len(), self.0.remaining()))
+        } else {
+            None
+        }
+    }
 }
 struct MMIn(MemoryMappedInput);
 impl PosIn for MMIn {
@@ -260,6 +281,13 @@ impl PosIn for MMIn {
     }
     fn pos(&self) -> u64 {
         self.0.position() as u64
+    }
+    fn views(&self, data: &[u8], pos: usize) -> Option<String> {
+        if self.0.len() != data.len() || self.0.remaining() != data.len().saturating_sub(pos) {
+            Some(format!("len()={} remaining()={}", self.0.len(), self.0.remaining()))
+        } else {
+            None
+        }
     }
 }
 struct RgIn(RangeReader<FaultyRead<Cursor<Vec<u8>>>>);
@@ -424,7 +452,9 @@ enum Sp {
     ArcVec(Vec<u16>),
     VecRc(Vec<u32>),
     /// several references into a few shared objects, one (de)serialisation context
-    Shared { vals: Vec<String>, refs: Vec<usize>, detect: bool, arc: bool },
+    /// `clear_at`: both contexts are cleared (SerializationContext::clear / DeserializationContext::clear)
+    /// before that reference and then used again
+    Shared { vals: Vec<String>, refs: Vec<usize>, detect: bool, arc: bool, clear_at: Option<usize> },
     SerBytes(String, u8),
     /// Some = the referent is alive while serialising, None = dangling
     WeakRc(Option<u32>),
@@ -485,6 +515,15 @@ fn gen_u64(a: u64, b: u64, i: usize) -> u64 {
     }
 }
 fn gen_len(a: u64, b: u64, big: usize) -> usize {
+    // lengths at the edges of the var-int length prefix (127/128, 16383/16384), of the 8 KiB chunk of
+    // ReaderDataInput::skip / RangeReader::skip and of the 64 KiB chunk of DataInput::read_vec
+    if (a >> 3) % 12 == 0 {
+        const EDGE: [usize; 16] = [127, 128, 129, 255, 256, 8191, 8192, 8193, 16383, 16384, 16385, 65535, 65536, 65537, 131072, 131075];
+        let fit = EDGE.iter().filter(|e| **e <= big).count();
+        if fit > 0 {
+            return EDGE[(b as usize) % fit];
+        }
+    }
     match a % 8 {
         0 => 0,
         1..=4 => 1 + (b % 12) as usize,
@@ -593,9 +632,12 @@ fn gen_val(fam: Fam, i: usize, o: [u64; 4], big: usize) -> Val {
                 6 => Sp::VecRc((0..(a % 5)).map(|k| gen_u64(a + k, b + k, i) as u32).collect()),
                 7 => {
                     let nv = 1 + (a % 3) as usize;
-                    let vals: Vec<String> = (0..nv).map(|k| format!("sh{}-{}-{}", i, k, s(a + k as u64))).collect();
+                    // one run in four: distinct objects with equal contents (identity, not content, decides sharing)
+                    let twins = (o[3] >> 2) % 4 == 3;
+                    let vals: Vec<String> = (0..nv).map(|k| if twins { format!("sh{}-twin", i) } else { format!("sh{}-{}-{}", i, k, s(a + k as u64)) }).collect();
                     let refs: Vec<usize> = (0..(1 + b % 5)).map(|k| ((b >> (2 * k)) as usize) % nv).collect();
-                    Sp::Shared { vals, refs, detect: o[3] % 2 == 0, arc: o[3] % 4 >= 2 }
+                    let clear_at = if (o[3] >> 4) % 3 == 0 { Some(((o[3] >> 6) as usize) % refs.len()) } else { None };
+                    Sp::Shared { vals, refs, detect: o[3] % 2 == 0, arc: o[3] % 4 >= 2, clear_at }
                 }
                 _ => Sp::SerBytes(s(a), (b % 4) as u8),
             })
@@ -887,16 +929,22 @@ impl Val {
                 Sp::ArcU(v) => <Arc<u64> as SerializableType>::serialize(&Arc::new(*v), o),
                 Sp::ArcVec(v) => <Arc<Vec<u16>> as SerializableType>::serialize(&Arc::new(v.clone()), o),
                 Sp::VecRc(v) => <Vec<Rc<u32>> as SerializableType>::serialize(&v.iter().map(|x| Rc::new(*x)).collect(), o),
-                Sp::Shared { vals, refs, detect, arc } => {
+                Sp::Shared { vals, refs, detect, arc, clear_at } => {
                     let mut ctx = if *detect { SerializationContext::new() } else { SerializationContext::without_cycle_detection() };
                     if *arc {
                         let objs: Vec<Arc<String>> = vals.iter().map(|s| Arc::new(s.clone())).collect();
-                        for &r in refs {
+                        for (k, &r) in refs.iter().enumerate() {
+                            if *clear_at == Some(k) {
+                                ctx.clear();
+                            }
                             <Arc<String> as SmartPtrSerialize<String>>::serialize_with_context(&objs[r], o, &mut ctx)?;
                         }
                     } else {
                         let objs: Vec<Rc<String>> = vals.iter().map(|s| Rc::new(s.clone())).collect();
-                        for &r in refs {
+                        for (k, &r) in refs.iter().enumerate() {
+                            if *clear_at == Some(k) {
+                                ctx.clear();
+                            }
                             <Rc<String> as SmartPtrSerialize<String>>::serialize_with_context(&objs[r], o, &mut ctx)?;
                         }
                     }
@@ -1018,11 +1066,14 @@ impl Val {
                 Sp::ArcU(v) => cmp(v, &*<Arc<u64> as SerializableType>::deserialize(i)?),
                 Sp::ArcVec(v) => cmp(v, &*<Arc<Vec<u16>> as SerializableType>::deserialize(i)?),
                 Sp::VecRc(v) => cmp(v, &<Vec<Rc<u32>> as SerializableType>::deserialize(i)?.iter().map(|r| **r).collect()),
-                Sp::Shared { vals, refs, arc, .. } => {
+                Sp::Shared { vals, refs, arc, clear_at, .. } => {
                     let mut bad = None;
                     if *arc {
                         let mut ctx = DeserializationContext::<Arc<String>>::new();
                         for (k, &r) in refs.iter().enumerate() {
+                            if *clear_at == Some(k) {
+                                ctx.clear();
+                            }
                             let g = <Arc<String> as SmartPtrSerialize<String>>::deserialize_with_context(i, &mut ctx)?;
                             if *g != vals[r] && bad.is_none() {
                                 bad = Some(format!("reference #{} decoded to {}", k, short_str(&g)));
@@ -1031,6 +1082,9 @@ impl Val {
                     } else {
                         let mut ctx = DeserializationContext::<Rc<String>>::new();
                         for (k, &r) in refs.iter().enumerate() {
+                            if *clear_at == Some(k) {
+                                ctx.clear();
+                            }
                             let g = <Rc<String> as SmartPtrSerialize<String>>::deserialize_with_context(i, &mut ctx)?;
                             if *g != vals[r] && bad.is_none() {
                                 bad = Some(format!("reference #{} decoded to {}", k, short_str(&g)));
@@ -1423,8 +1477,8 @@ fn typed_run(cx: &mut Run, be: Be, hard: bool, fam: Fam) {
     let planned = 2 + cfg.below(11);
     let ops = take_ops(cx, "ops", planned);
     let big = match be {
-        Be::File => *cfg.pick(&[64usize, 300, 6000]),
-        _ => [64usize, 300, 3000, 40000][cfg.weighted(&[5, 5, 2, 1])],
+        Be::File => [64usize, 300, 6000, 140_000][cfg.weighted(&[12, 12, 12, 1])],
+        _ => [64usize, 300, 3000, 40000, 140_000][cfg.weighted(&[30, 30, 12, 6, 1])],
     };
     let vals: Vec<Val> = ops.iter().enumerate().map(|(i, o)| gen_val(fam, i, *o, big)).collect();
     let by_value = fam != Fam::Prim;
@@ -1470,12 +1524,48 @@ fn typed_run(cx: &mut Run, be: Be, hard: bool, fam: Fam) {
     let WBuilt { mut out, medium: med, layout, before } = built;
     let mut wpos: Vec<u64> = vec![];
     let mut w_failed = false;
+    // one run in three: DataOutput::flush in the middle of the stream, then the writer is used again
+    let flush_after: Option<usize> = if cfg.below(3) == 0 { Some(cfg.below(vals.len().max(1) as u64) as usize) } else { None };
     for (i, v) in vals.iter().enumerate() {
+        if w_failed {
+            break;
+        }
+        if flush_after == Some(i) && i > 0 {
+            match out.out().flush() {
+                Ok(()) => {
+                    cx.ev(format!("flush before value #{} -> ok", i));
+                    cx.probe("mid_stream_flush");
+                    if out.pos() != wpos[i - 1] {
+                        note_faults(cx, &wlog, "write");
+                        cx.violate("wrong_position", &format!("{}.flush", be.label()), format!("a flush moved the writer from {} to {}", wpos[i - 1], out.pos()));
+                        return;
+                    }
+                }
+                Err(e) => {
+                    w_failed = true;
+                    if hard_fired(&wlog) {
+                        cx.ev(format!("flush before value #{} -> Err after an injected hard fault (allowed): {}", i, clip(&e)));
+                    } else {
+                        note_faults(cx, &wlog, "write");
+                        cx.violate("unexpected_error", &format!("{}.flush", be.label()), format!("a flush before value #{} failed with no hard fault injected: {}", i, clip(&e)));
+                        return;
+                    }
+                    break;
+                }
+            }
+        }
         match v.write(&mut DynOut(out.out())) {
             Ok(()) => {
                 wpos.push(out.pos());
                 cx.ev(format!("w{} {} -> ok, writer at {}", i, v.desc(), out.pos()));
                 cx.steps += 1;
+                // the trait-level observers (a generic encoder sees only these) must agree with the back end's own count
+                let (tp, tb) = (out.out().position(), out.out().bytes_written());
+                if tp.map_or(false, |p| p != out.pos()) || tb.map_or(false, |p| p != out.pos()) {
+                    note_faults(cx, &wlog, "write");
+                    cx.violate("wrong_position", &format!("{}.DataOutput.position", be.label()), format!("after value #{} the writer is at {} but DataOutput::position()={:?} bytes_written()={:?}", i, out.pos(), tp, tb));
+                    return;
+                }
             }
             Err(e) => {
                 w_failed = true;
@@ -1608,6 +1698,14 @@ fn typed_run(cx: &mut Run, be: Be, hard: bool, fam: Fam) {
                 }
                 cx.ev(format!("r{} -> equal, reader at {}", i, p));
                 cx.cell(format!("{}/{}/ok", be.label(), v.kind()));
+                // trait-level observers: position() and has_remaining() (None = not supported by the back end)
+                let (tp, hr) = (inp.inp().position(), inp.inp().has_remaining());
+                let more = p < delivered.len() as u64 && !matches!(layout, Layout::Range { .. } | Layout::Segs(_)) || matches!(layout, Layout::Range { .. }) && p < total as u64;
+                if tp.map_or(false, |q| q != p) || (complete && hr.map_or(false, |h| h != more)) {
+                    note_faults(cx, &rlog, "read");
+                    cx.violate("wrong_position", &format!("{}.DataInput.position", be.label()), format!("after value #{} the reader is at {} of {} but DataInput::position()={:?} has_remaining()={:?}", i, p, total, tp, hr));
+                    return;
+                }
             }
             Ok(Some(got)) => {
                 note_faults(cx, &rlog, "read");
@@ -2021,6 +2119,7 @@ fn seek_sb_reader(cx: &mut Run) {
     let len = if preset { 2000 } else { 1 + cfg.below((6 * unit + 40) as u64) as usize };
     let data = pattern(len, 11);
     cx.ev(format!("StreamBufferedReader({}) over a Cursor of {} bytes", d, len));
+    let max_cap = c.max_capacity;
     let mut r = match StreamBufferedReader::with_config(Cursor::new(data.clone()), c) {
         Ok(r) => r,
         Err(e) => {
@@ -2035,7 +2134,87 @@ fn seek_sb_reader(cx: &mut Run) {
     let mut seeks = 0;
     for o in &ops {
         cx.steps += 1;
-        if o[0] % 2 == 0 {
+        if o[0] % 8 >= 6 {
+            // the other read entry points after a seek: each has its own fast path over the buffer
+            let rem = (len as u64 - pos) as usize;
+            let n = size_arg(o[1], o[2], unit);
+            let site = after_seek("StreamBufferedReader", last);
+            let p = pos as usize;
+            match (o[0] % 8, o[3] % 2) {
+                (6, 0) => match r.read_byte_fast() {
+                    Ok(b) => {
+                        if rem == 0 || b != data[p] {
+                            cx.violate("wrong_value", &site, format!("read_byte_fast at {} (last seek: {}) returned {:#x}, expected {}", pos, last, b, if rem == 0 { "end of stream".to_string() } else { format!("{:#x}", data[p]) }));
+                            return;
+                        }
+                        cx.ev(format!("read_byte_fast at {} -> ok", pos));
+                        pos += 1;
+                    }
+                    Err(e) => {
+                        if rem > 0 {
+                            cx.violate("unexpected_error", &site, format!("read_byte_fast at {} of {} (last seek: {}) failed: {}", pos, len, last, clip(&e)));
+                            return;
+                        }
+                        cx.ev("read_byte_fast at end -> Err (expected)");
+                    }
+                },
+                (6, _) => {
+                    let mut buf = vec![0u8; n];
+                    match r.read_bulk(&mut buf) {
+                        Ok(k) => {
+                            if k > n || k > rem || buf[..k] != data[p..p + k] || (k == 0 && n > 0 && rem > 0) {
+                                cx.violate("wrong_value", &site, format!("read_bulk(buf of {}) at {} (last seek: {}, {} remain) returned {} bytes {}", n, pos, last, rem, k, short_bytes(&buf[..k.min(n)])));
+                                return;
+                            }
+                            cx.ev(format!("read_bulk(buf of {}) at {} -> {}", n, pos, k));
+                            pos += k as u64;
+                        }
+                        Err(e) => {
+                            cx.violate("unexpected_error", &site, format!("read_bulk(buf of {}) at {} (last seek: {}) failed: {}", n, pos, last, clip(&e)));
+                            return;
+                        }
+                    }
+                }
+                (_, 0) => match r.fill_buf() {
+                    Ok(sl) => {
+                        let k = sl.len();
+                        if k > rem || sl != &data[p..p + k] || (k == 0 && rem > 0) {
+                            let got = short_bytes(sl);
+                            cx.violate("wrong_value", &site, format!("fill_buf at {} (last seek: {}, {} remain) returned {}", pos, last, rem, got));
+                            return;
+                        }
+                        let take = if k == 0 { 0 } else { (o[2] as usize) % (k + 1) };
+                        r.consume(take);
+                        cx.ev(format!("fill_buf at {} -> {} bytes, consume({})", pos, k, take));
+                        pos += take as u64;
+                    }
+                    Err(e) => {
+                        cx.violate("unexpected_error", &site, format!("fill_buf at {} (last seek: {}) failed: {}", pos, last, clip(&e)));
+                        return;
+                    }
+                },
+                _ => match r.read_slice(n) {
+                    Ok(Some(sl)) => {
+                        if n > rem || sl != &data[p..p + n] {
+                            let got = short_bytes(sl);
+                            cx.violate("wrong_value", &site, format!("read_slice({}) at {} (last seek: {}, {} remain) returned {}", n, pos, last, rem, got));
+                            return;
+                        }
+                        cx.ev(format!("read_slice({}) at {} -> Some", n, pos));
+                        pos += n as u64;
+                    }
+                    Ok(None) => cx.ev(format!("read_slice({}) at {} -> None (nothing consumed)", n, pos)),
+                    Err(e) => {
+                        if n > max_cap {
+                            cx.ev(format!("read_slice({}) with max_capacity {} -> Err (documented limit)", n, max_cap));
+                        } else {
+                            cx.violate("unexpected_error", &site, format!("read_slice({}) at {} (last seek: {}, {} remain) failed: {}", n, pos, last, rem, clip(&e)));
+                            return;
+                        }
+                    }
+                },
+            }
+        } else if o[0] % 2 == 0 {
             let n = (size_arg(o[1], o[2], unit) as u64).min(len as u64 - pos) as usize;
             let mut buf = vec![0u8; n];
             match r.read_exact(&mut buf) {
@@ -2162,6 +2341,33 @@ fn seek_range_reader(cx: &mut Run) {
         cx.steps += 1;
         let rem = len - pos;
         let site = after_seek("RangeReader", last);
+        if o[3] % 5 == 0 && matches!(o[0] % 8, 1 | 5 | 7) {
+            // a request the range cannot satisfy is refused (documented: "Range exhausted" / beyond range end)
+            // without moving: the reader is used again from the same offset
+            let n = rem as usize + 1 + (o[2] % 3) as usize;
+            let (what, refused) = match o[0] % 8 {
+                1 => (format!("read_bytes({})", n), DataInput::read_bytes(&mut r, &mut vec![0u8; n]).is_err()),
+                5 => (format!("seek_in_range({})", len + o[2] % 3), r.seek_in_range(len + o[2] % 3).is_err()),
+                _ => match o[2] % 4 {
+                    0 if rem < 8 => ("read_u64".to_string(), DataInput::read_u64(&mut r).is_err()),
+                    1 if rem < 4 => ("read_u32".to_string(), DataInput::read_u32(&mut r).is_err()),
+                    2 => (format!("skip({})", usize::MAX - n), DataInput::skip(&mut r, usize::MAX - n).is_err()),
+                    _ => (format!("skip({})", n), DataInput::skip(&mut r, n).is_err()),
+                },
+            };
+            let (p1, p2, p3) = (r.current_position() - r.start_position(), DataInput::position(&r).unwrap_or(u64::MAX), len - r.remaining());
+            if !refused {
+                cx.violate("read_past_end", "RangeReader.refusal", format!("{} at range offset {} succeeded although only {} bytes remain", what, pos, rem));
+                return;
+            }
+            if p1 != pos || p2 != pos || p3 != pos {
+                cx.violate("refused_op_consumed", "RangeReader.after_refusal", format!("{} at range offset {} ({} remain) was refused but moved the reader: current_position()-start={}, position()={}, len-remaining()={}", what, pos, rem, p1, p2, p3));
+                return;
+            }
+            cx.ev(format!("{} at {} ({} remain) -> Err (refused), reader still at {}", what, pos, rem, pos));
+            cx.probe("refused");
+            continue;
+        }
         match o[0] % 8 {
             0 | 1 => {
                 let n = (o[2] % 12).min(rem) as usize;
@@ -2291,6 +2497,31 @@ fn seek_range_writer(cx: &mut Run) {
     for o in &ops {
         cx.steps += 1;
         let rem = len - pos;
+        if o[0] % 4 == 0 && o[3] % 5 == 0 {
+            // write_all of more than the range can take must fail; whatever part it placed must be
+            // inside the range and be reported consistently, and the writer is used again afterwards
+            let n = rem as usize + 1 + (o[2] % 3) as usize;
+            let chunk: Vec<u8> = pattern(serial + n, 29)[serial..].iter().map(|b| b ^ 0xFF).collect();
+            serial += n;
+            let res = w.write_all(&chunk);
+            let now = w.current_position() - w.start_position();
+            if res.is_ok() || now < pos || now > len {
+                cx.violate("range_overrun", "RangeWriter.refusal", format!("write_all({}) at range offset {} with {} bytes remaining: ok={} and the writer reports offset {} (range length {})", n, pos, rem, res.is_ok(), now, len));
+                return;
+            }
+            let k = (now - pos) as usize;
+            let a = (start + pos) as usize;
+            model[a..a + k].copy_from_slice(&chunk[..k]);
+            cx.ev(format!("write_all({}) at {} ({} remain) -> Err (refused), {} bytes placed", n, pos, rem, k));
+            cx.probe("refused");
+            pos = now;
+            written += k as u64;
+            if w.remaining() != len - pos || w.bytes_written() != written {
+                cx.violate("wrong_position", "RangeWriter.after_refusal", format!("after the refused write_all the writer is at {} (written {}) but remaining()={}, bytes_written()={}", pos, written, w.remaining(), w.bytes_written()));
+                return;
+            }
+            continue;
+        }
         match o[0] % 4 {
             0 | 1 => {
                 let n = if o[0] % 4 == 0 { (o[2] % 12).min(rem) as usize } else { (o[2] % 16) as usize };
@@ -2656,14 +2887,31 @@ fn api_zc_writer(cx: &mut Run, hard: bool) {
 
 fn api_mmap_input(cx: &mut Run) {
     let cfg = cx.src.chan("cfg");
-    let len = *cfg.pick(&[0usize, 1, 7, 100, 4096, 4097, 9000]) + cfg.below(5) as usize;
+    // 70 000: above the 64 KiB prefetch limit of the Sequential pattern; 1 MiB: the huge-page threshold
+    let len = [0usize, 1, 7, 100, 4096, 4097, 9000, 70_000, 1 << 20][cfg.weighted(&[4, 4, 4, 4, 4, 4, 4, 2, 1])] + cfg.below(5) as usize;
     let data = pattern(len, 41);
     let file = TmpFile::new(true);
     if std::fs::write(&file.0, &data).is_err() {
         cx.abandoned = true;
         return;
     }
-    let mut r = match MemoryMappedInput::from_path(&file.0) {
+    // access-pattern hints change madvise/prefetch calls only: every one must read the same bytes
+    let pat = cfg.below(6);
+    let opened = match pat {
+        0 | 1 => MemoryMappedInput::from_path(&file.0),
+        2 => MemoryMappedInput::from_path_with_pattern(&file.0, AccessPattern::Sequential),
+        3 => MemoryMappedInput::from_path_with_pattern(&file.0, AccessPattern::Random),
+        4 => MemoryMappedInput::from_path_with_pattern(&file.0, AccessPattern::Mixed),
+        _ => match std::fs::File::open(&file.0) {
+            Ok(f) => MemoryMappedInput::new_with_pattern(f, AccessPattern::Sequential),
+            Err(_) => {
+                cx.abandoned = true;
+                return;
+            }
+        },
+    };
+    cx.ev(format!("opened with {}", ["from_path", "from_path", "from_path_with_pattern(Sequential)", "from_path_with_pattern(Random)", "from_path_with_pattern(Mixed)", "new_with_pattern(File, Sequential)"][pat as usize]));
+    let mut r = match opened {
         Ok(r) => r,
         Err(e) => {
             if len == 0 {
@@ -2685,8 +2933,12 @@ fn api_mmap_input(cx: &mut Run) {
         cx.steps += 1;
         let rem = len - pos;
         let over = o[3] % 8 == 0;
-        let n = if over { rem + 1 + (o[2] % 3) as usize } else { (o[2] as usize % 24).min(rem) };
+        let huge = over && (o[3] >> 3) % 4 == 0 && !matches!(o[0] % 8, 5 | 6);
+        let n = if huge { usize::MAX - (o[2] % 3) as usize } else if over { rem + 1 + (o[2] % 3) as usize } else { (o[2] as usize % 24).min(rem) };
         let site = "MemoryMappedInput.read";
+        if huge {
+            cx.ev(format!("op {} with length/target {} at {} ...", ["read_slice", "read_slice_zero_copy", "peek_slice", "seek", "skip", "read_u32", "read_bytes", "peek_slice_zero_copy"][(o[0] % 8) as usize], n, pos));
+        }
         macro_rules! expect_err {
             ($res:expr, $what:expr) => {
                 if $res.is_ok() {
@@ -2697,9 +2949,37 @@ fn api_mmap_input(cx: &mut Run) {
                 }
             };
         }
-        match o[0] % 7 {
+        if r.len() != len || r.is_empty() != (len == 0) {
+            cx.violate("wrong_position", "MemoryMappedInput.position", format!("len()={} is_empty()={} for a file of {} bytes", r.len(), r.is_empty(), len));
+            return;
+        }
+        match o[0] % 8 {
+            7 => {
+                let res = r.peek_slice_zero_copy(n).map(|s| s.to_vec());
+                if over {
+                    expect_err!(res, format!("peek_slice_zero_copy({})", n));
+                } else {
+                    match res {
+                        Ok(v) => {
+                            if v[..] != data[pos..pos + n] {
+                                cx.violate("wrong_value", "MemoryMappedInput.peek_slice", format!("peek_slice_zero_copy({}) at {} returned {}", n, pos, short_bytes(&v)));
+                                return;
+                            }
+                            cx.ev(format!("peek_slice_zero_copy({}) at {} -> ok", n, pos));
+                        }
+                        Err(e) => {
+                            if buffered {
+                                cx.ev("peek_slice_zero_copy under BufferedIO -> Err (documented: not supported)");
+                            } else {
+                                cx.violate("unexpected_error", "MemoryMappedInput.peek_slice", clip(&e));
+                                return;
+                            }
+                        }
+                    }
+                }
+            }
             0 | 1 => {
-                let zc = o[0] % 7 == 1;
+                let zc = o[0] % 8 == 1;
                 let name = if zc { "read_slice_zero_copy" } else { "read_slice" };
                 let res: ZResult<Vec<u8>> = if zc { r.read_slice_zero_copy(n).map(|s| s.to_vec()) } else { r.read_slice(n) };
                 if over {
@@ -2750,7 +3030,7 @@ fn api_mmap_input(cx: &mut Run) {
                 }
             }
             3 => {
-                let t = if over { len + 1 + (o[2] % 3) as usize } else { (o[2] as usize) % (len + 1) };
+                let t = if huge { n } else if over { len + 1 + (o[2] % 3) as usize } else { (o[2] as usize) % (len + 1) };
                 let res = r.seek(t);
                 if over {
                     expect_err!(res, format!("seek({})", t));
@@ -2823,6 +3103,1281 @@ fn api_mmap_input(cx: &mut Run) {
 }
 
 // ---------------------------------------------------------------------------------------
+// slice-only codecs: VarInt / SignedVarInt, SimdVarintCodec, the VarIntEncoder strategies and
+// endian conversion.  Pure functions of their input, but they are named by the property and no
+// stream scenario reaches them.  Inputs are *related* integers (same again, +-1, one bit flipped,
+// jumps of random magnitude, sorted / reverse-sorted / constant sequences) under a per-run
+// bit-width cap, and every single-value decoder is handed its own bytes *followed by* the next
+// encoding (or by a trailer), never a slice that ends exactly where the value ends.
+
+fn unzig(v: u64) -> i64 {
+    ((v >> 1) as i64) ^ -((v & 1) as i64)
+}
+
+fn width_mask(v: u64, width: u32) -> u64 {
+    if width >= 64 {
+        v
+    } else {
+        v & ((1u64 << width) - 1)
+    }
+}
+
+/// An integer related to its predecessor.
+fn rel_u64(prev: u64, o: &[u64; 4], width: u32) -> u64 {
+    let wide = (o[1] << 44) ^ (o[2] << 22) ^ o[3] ^ (o[2] >> 3);
+    let v = match o[0] % 12 {
+        0 | 1 => bounds()[(o[1] as usize) % bounds().len()],
+        2 => prev,
+        3 => prev.wrapping_add(1 + o[1] % 3),
+        4 => prev.wrapping_sub(1 + o[1] % 3),
+        5 | 6 => wide >> (o[2] % 64),
+        7 => o[1] % 300,
+        8 => (1u64 << (o[1] % 64)).wrapping_add(o[2] % 3).wrapping_sub(1),
+        9 => prev ^ (1u64 << (o[1] % 64)),
+        10 => u64::MAX - (o[1] % 300),
+        _ => prev.wrapping_add(wide >> (o[2] % 64)),
+    };
+    width_mask(v, width)
+}
+
+const WIDTHS: [u32; 10] = [64, 64, 64, 7, 8, 14, 21, 32, 35, 63];
+const SHAPES: [&str; 6] = ["free", "free", "ascending", "descending", "constant", "small steps"];
+
+fn rel_seq(ops: &[[u64; 4]], width: u32, shape: usize) -> Vec<u64> {
+    let mut vals = vec![];
+    let mut prev = 0u64;
+    for o in ops {
+        let v = match shape {
+            4 if !vals.is_empty() => prev,
+            5 if !vals.is_empty() => width_mask(if o[1] % 2 == 0 { prev.wrapping_add(o[2] % 5) } else { prev.wrapping_sub(o[2] % 5) }, width),
+            _ => rel_u64(prev, o, width),
+        };
+        vals.push(v);
+        prev = v;
+    }
+    match shape {
+        2 => vals.sort(),
+        3 => {
+            vals.sort();
+            vals.reverse();
+        }
+        _ => {}
+    }
+    vals
+}
+
+fn hexes(v: &[u64]) -> String {
+    let s: Vec<String> = v.iter().take(12).map(|x| format!("{:#x}", x)).collect();
+    format!("[{}{}]", s.join(","), if v.len() > 12 { format!(",..{} more", v.len() - 12) } else { String::new() })
+}
+fn hexes_i(v: &[i64]) -> String {
+    let s: Vec<String> = v.iter().take(12).map(|x| format!("{}", x)).collect();
+    format!("[{}{}]", s.join(","), if v.len() > 12 { format!(",..{} more", v.len() - 12) } else { String::new() })
+}
+
+const TRAILERS: [&[u8]; 6] = [&[], &[0x00], &[0x80, 0x80], &[0xFF, 0xFF, 0x01], &[0x7F], &[0x80; 40]];
+
+fn codec_var_int(cx: &mut Run) {
+    let cfg = cx.src.chan("cfg");
+    let width = *cfg.pick(&WIDTHS);
+    let signed = cfg.below(2) == 1;
+    let shape = cfg.below(6) as usize;
+    let trailer = TRAILERS[cfg.below(6) as usize];
+    let planned = *cfg.pick(&[1u64, 2, 3, 5, 8, 12]);
+    let ops = take_ops(cx, "ops", planned);
+    let vals = rel_seq(&ops, width, shape);
+    let target = if signed { "VarInt.signed" } else { "VarInt" };
+    cx.ev(format!("{}: {} values, width<={} bits, shape {}, trailer {}", target, vals.len(), width, SHAPES[shape], short_bytes(trailer)));
+    let mut buf: Vec<u8> = vec![];
+    let mut ends: Vec<usize> = vec![];
+    for (i, (v, o)) in vals.iter().zip(ops.iter()).enumerate() {
+        let before = buf.len();
+        cx.steps += 1;
+        let how = if signed {
+            buf.extend_from_slice(&<VarInt as SignedVarInt>::encode_signed(unzig(*v)));
+            "encode_signed"
+        } else {
+            match o[3] % 4 {
+                0 => {
+                    buf.extend_from_slice(&VarInt::encode(*v));
+                    "encode"
+                }
+                1 | 2 => {
+                    let vec_way = o[3] % 4 == 1;
+                    let r = if vec_way { VarInt::write_to_vec(&mut buf, *v) } else { VarInt::write_to(&mut buf, *v) };
+                    let name = if vec_way { "write_to_vec" } else { "write_to" };
+                    match r {
+                        Ok(n) => {
+                            if n != buf.len() - before {
+                                cx.violate("length_mismatch", &format!("VarInt.{}", name), format!("{}({:#x}) reports {} bytes but appended {}", name, v, n, buf.len() - before));
+                                return;
+                            }
+                        }
+                        Err(e) => {
+                            cx.violate("unexpected_error", &format!("VarInt.{}", name), format!("{}({:#x}) into a Vec failed: {}", name, v, clip(&e)));
+                            return;
+                        }
+                    }
+                    name
+                }
+                _ => {
+                    buf.extend_from_slice(&VarInt::encode_multiple(std::iter::once(*v)));
+                    "encode_multiple"
+                }
+            }
+        };
+        if buf.len() == before {
+            cx.violate("length_mismatch", &format!("{}.encode", target), format!("{}({:#x}) produced no bytes", how, v));
+            return;
+        }
+        ends.push(buf.len());
+        if signed {
+            cx.ev(format!("e{} {}({}) -> {}", i, how, unzig(*v), short_bytes(&buf[before..])));
+        } else {
+            cx.ev(format!("e{} {}({:#x}) -> {}", i, how, v, short_bytes(&buf[before..])));
+        }
+    }
+    let own = buf.len();
+    buf.extend_from_slice(trailer);
+    // decode in order, each decoder sees everything that follows its value
+    let mut off = 0usize;
+    for (i, v) in vals.iter().enumerate() {
+        cx.steps += 1;
+        let start = off;
+        if signed {
+            match <VarInt as SignedVarInt>::decode_signed(&buf[off..]) {
+                Ok((g, n)) => {
+                    if g != unzig(*v) {
+                        cx.violate("wrong_value", "VarInt.decode_signed", format!("value #{} encoded from {} decodes to {}", i, unzig(*v), g));
+                        return;
+                    }
+                    if start + n != ends[i] {
+                        cx.violate("consumed_mismatch", "VarInt.decode_signed", format!("value #{} ({}) occupies bytes {}..{} but decode_signed reports {} consumed", i, unzig(*v), start, ends[i], n));
+                        return;
+                    }
+                    off += n;
+                }
+                Err(e) => {
+                    cx.violate("unexpected_error", "VarInt.decode_signed", format!("decoding value #{} ({}) at byte {} failed: {}", i, unzig(*v), start, clip(&e)));
+                    return;
+                }
+            }
+        } else {
+            match VarInt::decode(&buf[off..]) {
+                Ok((g, n)) => {
+                    if g != *v {
+                        cx.violate("wrong_value", "VarInt.decode", format!("value #{} encoded from {:#x} decodes to {:#x}", i, v, g));
+                        return;
+                    }
+                    if start + n != ends[i] {
+                        cx.violate("consumed_mismatch", "VarInt.decode", format!("value #{} ({:#x}) occupies bytes {}..{} but decode reports {} consumed", i, v, start, ends[i], n));
+                        return;
+                    }
+                    off += n;
+                }
+                Err(e) => {
+                    cx.violate("unexpected_error", "VarInt.decode", format!("decoding value #{} ({:#x}) at byte {} failed: {}", i, v, start, clip(&e)));
+                    return;
+                }
+            }
+        }
+        cx.ev(format!("d{} at {} -> equal, {} consumed", i, start, off - start));
+    }
+    if !signed {
+        match VarInt::decode_multiple(&buf[..own]) {
+            Ok(g) => {
+                if g != vals {
+                    cx.violate("wrong_value", "VarInt.decode_multiple", format!("{} concatenated encodings of {} decode to {}", vals.len(), hexes(&vals), hexes(&g)));
+                    return;
+                }
+                cx.ev("decode_multiple -> equal");
+            }
+            Err(e) => {
+                cx.violate("unexpected_error", "VarInt.decode_multiple", format!("decoding the {} own bytes of {} failed: {}", own, hexes(&vals), clip(&e)));
+                return;
+            }
+        }
+        let mut inp = SliceDataInput::new(&buf);
+        for (i, v) in vals.iter().enumerate() {
+            match VarInt::read_from(&mut inp) {
+                Ok(g) => {
+                    if g != *v || inp.pos() != ends[i] {
+                        cx.violate(if g != *v { "wrong_value" } else { "consumed_mismatch" }, "VarInt.read_from", format!("value #{} ({:#x}) read as {:#x}, input at {} where the value ends at {}", i, v, g, inp.pos(), ends[i]));
+                        return;
+                    }
+                }
+                Err(e) => {
+                    cx.violate("unexpected_error", "VarInt.read_from", format!("reading value #{} ({:#x}) failed: {}", i, v, clip(&e)));
+                    return;
+                }
+            }
+        }
+        cx.ev("read_from over a slice -> equal, positions agree");
+    }
+    cx.cell(format!("{}/width{}/{}", target, width, SHAPES[shape]));
+    cx.nontrivial = vals.len() >= 2;
+}
+
+fn codec_simd_varint(cx: &mut Run) {
+    let cfg = cx.src.chan("cfg");
+    let width = *cfg.pick(&WIDTHS);
+    let shape = cfg.below(6) as usize;
+    let trailer = TRAILERS[cfg.below(6) as usize];
+    // around SIMD_BATCH_THRESHOLD (4) and around the 32 input bytes the AVX2 decoder asks for
+    let planned = *cfg.pick(&[0u64, 1, 3, 4, 5, 8, 15, 16, 17, 31, 32, 33, 40]);
+    let global = cfg.below(2) == 1;
+    let ops = take_ops(cx, "ops", planned);
+    let vals = rel_seq(&ops, width, shape);
+    let codec = SimdVarintCodec::new();
+    cx.probe(&format!("tier.{:?}", codec.tier()));
+    cx.ev(format!("SimdVarintCodec({:?}{}): {} values {}, width<={} bits, shape {}, trailer {}", codec.tier(), if global { ", global instance" } else { "" }, vals.len(), hexes(&vals), width, SHAPES[shape], short_bytes(trailer)));
+    cx.steps += 1;
+    let enc = match if global { simd_varint::encode_varint_batch(&vals) } else { codec.encode_batch(&vals) } {
+        Ok(e) => e,
+        Err(e) => {
+            cx.violate("unexpected_error", "SimdVarintCodec.encode_batch", format!("encode_batch({}) failed: {}", hexes(&vals), clip(&e)));
+            return;
+        }
+    };
+    let scalar = VarInt::encode_multiple(vals.iter().copied());
+    if enc != scalar {
+        let j = enc.iter().zip(scalar.iter()).position(|(a, b)| a != b).unwrap_or(enc.len().min(scalar.len()));
+        cx.violate("not_byte_identical", "SimdVarintCodec.encode_batch", format!("encode_batch({}) = {} but the scalar codec gives {} (first difference at byte {})", hexes(&vals), short_bytes(&enc), short_bytes(&scalar), j));
+        return;
+    }
+    cx.ev(format!("encode_batch -> {} bytes, identical to VarInt::encode_multiple", enc.len()));
+    let mut data = enc.clone();
+    data.extend_from_slice(trailer);
+    cx.steps += 1;
+    if !(data.is_empty() && !vals.is_empty()) {
+        match if global { simd_varint::decode_varint_batch(&data, vals.len()) } else { codec.decode_batch(&data, vals.len()) } {
+            Ok(g) => {
+                if g != vals {
+                    cx.violate("wrong_value", "SimdVarintCodec.decode_batch", format!("decode_batch({} own bytes + {} trailing, count {}) of {} gives {}", enc.len(), trailer.len(), vals.len(), hexes(&vals), hexes(&g)));
+                    return;
+                }
+                cx.ev("decode_batch -> equal");
+            }
+            Err(e) => {
+                cx.violate("unexpected_error", "SimdVarintCodec.decode_batch", format!("decode_batch({} own bytes + {} trailing, count {}) of {} failed: {}", enc.len(), trailer.len(), vals.len(), hexes(&vals), clip(&e)));
+                return;
+            }
+        }
+    }
+    // single-value entry points walk the batch: value and bytes consumed
+    let mut off = 0usize;
+    for (i, v) in vals.iter().enumerate() {
+        cx.steps += 1;
+        let one = match if global { simd_varint::encode_varint(*v) } else { codec.encode_single(*v) } {
+            Ok(b) => b,
+            Err(e) => {
+                cx.violate("unexpected_error", "SimdVarintCodec.single", format!("encode_single({:#x}) failed: {}", v, clip(&e)));
+                return;
+            }
+        };
+        if one != VarInt::encode(*v) {
+            cx.violate("not_byte_identical", "SimdVarintCodec.single", format!("encode_single({:#x}) = {} but the scalar codec gives {}", v, short_bytes(&one), short_bytes(&VarInt::encode(*v))));
+            return;
+        }
+        match if global { simd_varint::decode_varint(&data[off..]) } else { codec.decode_single(&data[off..]) } {
+            Ok((g, n)) => {
+                if g != *v || n != one.len() {
+                    cx.violate(if g != *v { "wrong_value" } else { "consumed_mismatch" }, "SimdVarintCodec.single", format!("decode_single at byte {} gives ({:#x}, {} consumed) for value #{} = {:#x} encoded in {} bytes", off, g, n, i, v, one.len()));
+                    return;
+                }
+                off += n;
+            }
+            Err(e) => {
+                cx.violate("unexpected_error", "SimdVarintCodec.single", format!("decode_single at byte {} (value #{} = {:#x}) failed: {}", off, i, v, clip(&e)));
+                return;
+            }
+        }
+    }
+    if off != enc.len() {
+        cx.violate("consumed_mismatch", "SimdVarintCodec.single", format!("walking {} values consumed {} of the {} bytes encode_batch produced", vals.len(), off, enc.len()));
+        return;
+    }
+    cx.ev("encode_single/decode_single walk -> equal, all own bytes consumed");
+    cx.cell(format!("SimdVarintCodec/n{}/width{}", vals.len(), width));
+    cx.nontrivial = vals.len() >= 2;
+}
+
+const STRATS: [VarIntStrategy; 7] = [VarIntStrategy::Leb128, VarIntStrategy::Zigzag, VarIntStrategy::Delta, VarIntStrategy::GroupVarint, VarIntStrategy::PrefixFree, VarIntStrategy::Compact, VarIntStrategy::Simd];
+
+fn make_encoder(st: VarIntStrategy, named: bool) -> VarIntEncoder {
+    if !named {
+        return VarIntEncoder::new(st);
+    }
+    match st {
+        VarIntStrategy::Leb128 => VarIntEncoder::leb128(),
+        VarIntStrategy::Zigzag => VarIntEncoder::zigzag(),
+        VarIntStrategy::Delta => VarIntEncoder::delta(),
+        VarIntStrategy::GroupVarint => VarIntEncoder::group_varint(),
+        VarIntStrategy::PrefixFree => VarIntEncoder::prefix_free(),
+        VarIntStrategy::Compact => VarIntEncoder::compact(),
+        VarIntStrategy::Simd => VarIntEncoder::simd(),
+    }
+}
+
+fn codec_strategy_single(cx: &mut Run) {
+    let cfg = cx.src.chan("cfg");
+    let st = STRATS[cfg.below(7) as usize];
+    let signed = cfg.below(2) == 1;
+    let width = *cfg.pick(&WIDTHS);
+    let shape = cfg.below(6) as usize;
+    let trailer = TRAILERS[cfg.below(6) as usize];
+    let enc = make_encoder(st, cfg.below(2) == 1);
+    let planned = *cfg.pick(&[1u64, 2, 3, 5, 8, 12]);
+    let ops = take_ops(cx, "ops", planned);
+    let vals = rel_seq(&ops, width, shape);
+    let site = format!("VarIntEncoder.{:?}.{}", st, if signed { "i64" } else { "u64" });
+    cx.ev(format!("{} single values: {} values, width<={} bits, shape {}, trailer {}", site, vals.len(), width, SHAPES[shape], short_bytes(trailer)));
+    if enc.strategy() != st {
+        cx.violate("wrong_value", &site, format!("the encoder made for {:?} reports strategy {:?}", st, enc.strategy()));
+        return;
+    }
+    let refusal_documented = st == VarIntStrategy::Delta || (st == VarIntStrategy::Zigzag && !signed);
+    let mut buf: Vec<u8> = vec![];
+    let mut placed: Vec<(u64, usize, usize)> = vec![];
+    for (i, v) in vals.iter().enumerate() {
+        cx.steps += 1;
+        let r = if signed { enc.encode_i64(unzig(*v)) } else { enc.encode_u64(*v) };
+        match r {
+            Ok(b) => {
+                if b.is_empty() {
+                    cx.violate("length_mismatch", &site, format!("value #{} ({:#x}) encodes to no bytes", i, v));
+                    return;
+                }
+                placed.push((*v, buf.len(), buf.len() + b.len()));
+                cx.ev(format!("e{} {} -> {}", i, if signed { format!("{}", unzig(*v)) } else { format!("{:#x}", v) }, short_bytes(&b)));
+                buf.extend_from_slice(&b);
+            }
+            Err(e) => {
+                if refusal_documented {
+                    cx.ev(format!("e{} -> Err (this strategy has no single-value form): {}", i, clip(&e)));
+                    cx.cell(format!("{}/refused", site));
+                } else {
+                    cx.violate("unexpected_error", &site, format!("encoding value #{} ({}) failed: {}", i, if signed { format!("{}", unzig(*v)) } else { format!("{:#x}", v) }, clip(&e)));
+                    return;
+                }
+            }
+        }
+    }
+    buf.extend_from_slice(trailer);
+    for (i, (v, start, end)) in placed.iter().enumerate() {
+        cx.steps += 1;
+        let r: ZResult<(u64, usize, String)> = if signed { enc.decode_i64(&buf[*start..]).map(|(g, n)| (if g == unzig(*v) { *v } else { !*v }, n, format!("{}", g))) } else { enc.decode_u64(&buf[*start..]).map(|(g, n)| (g, n, format!("{:#x}", g))) };
+        match r {
+            Ok((g, n, shown)) => {
+                if g != *v {
+                    cx.violate("wrong_value", &site, format!("value #{} encoded from {} decodes to {}", i, if signed { format!("{}", unzig(*v)) } else { format!("{:#x}", v) }, shown));
+                    return;
+                }
+                if start + n != *end {
+                    cx.violate("consumed_mismatch", &site, format!("value #{} ({:#x}) occupies bytes {}..{} but the decoder reports {} consumed", i, v, start, end, n));
+                    return;
+                }
+                cx.ev(format!("d{} at {} -> equal, {} consumed", i, start, n));
+            }
+            Err(e) => {
+                cx.violate("unexpected_error", &site, format!("decoding value #{} ({:#x}) at byte {} failed: {}", i, v, start, clip(&e)));
+                return;
+            }
+        }
+    }
+    cx.cell(format!("{}/width{}", site, width));
+    cx.nontrivial = placed.len() >= 2 || (refusal_documented && vals.len() >= 2);
+}
+
+fn codec_strategy_sequence(cx: &mut Run) {
+    let cfg = cx.src.chan("cfg");
+    let pick = cfg.below(8) as usize;
+    let signed = cfg.below(2) == 1;
+    let width = *cfg.pick(&WIDTHS);
+    let shape = cfg.below(6) as usize;
+    let named = cfg.below(2) == 1;
+    let planned = *cfg.pick(&[0u64, 1, 2, 3, 4, 5, 6, 7, 8, 9, 15, 16, 17, 20, 33]);
+    let ops = take_ops(cx, "ops", planned);
+    let vals = rel_seq(&ops, width, shape);
+    let ivals: Vec<i64> = vals.iter().map(|v| unzig(*v)).collect();
+    let (st, chosen) = if pick < 7 { (STRATS[pick], false) } else if signed { (choose_optimal_strategy_signed(&ivals), true) } else { (choose_optimal_strategy(&vals), true) };
+    let enc = make_encoder(st, named);
+    let base = format!("VarIntEncoder.{:?}.{}_sequence", st, if signed { "i64" } else { "u64" });
+    let shown = if signed { hexes_i(&ivals) } else { hexes(&vals) };
+    cx.ev(format!("{}{}: {} values {}, width<={} bits, shape {}", base, if chosen { " (chosen by choose_optimal_strategy)" } else { "" }, vals.len(), shown, width, SHAPES[shape]));
+    // Two documented-by-construction limits of the formats get their own identity: the group-varint
+    // selector has two bits per value (1..4 bytes), and the unsigned delta keeps its sign in bit 0.
+    let as_u: Vec<u64> = if signed { ivals.iter().map(|v| *v as u64).collect() } else { vals.clone() };
+    let cause = match st {
+        VarIntStrategy::GroupVarint if as_u.iter().any(|v| *v > u32::MAX as u64) => "@value_above_u32",
+        VarIntStrategy::Delta if !signed && vals.windows(2).any(|w| w[0].abs_diff(w[1]) >= 1u64 << 63) => "@delta_above_i63",
+        _ => "",
+    };
+    let site = format!("{}{}", base, cause);
+    cx.steps += 1;
+    let bytes = match if signed { enc.encode_i64_sequence(&ivals) } else { enc.encode_u64_sequence(&vals) } {
+        Ok(b) => b,
+        Err(e) => {
+            if st == VarIntStrategy::Zigzag && !signed {
+                cx.ev(format!("encode -> Err (zigzag is for signed input): {}", clip(&e)));
+                cx.cell(format!("{}/refused", base));
+                cx.nontrivial = vals.len() >= 2;
+            } else {
+                cx.violate("unexpected_error", &site, format!("encoding {} failed: {}", shown, clip(&e)));
+            }
+            return;
+        }
+    };
+    cx.ev(format!("encode -> {}", short_bytes(&bytes)));
+    cx.steps += 1;
+    let bad: Option<String> = if signed {
+        match enc.decode_i64_sequence(&bytes) {
+            Ok(g) => if g == ivals { None } else { Some(format!("decodes to {}", hexes_i(&g))) },
+            Err(e) => Some(format!("fails to decode: {}", clip(&e))),
+        }
+    } else {
+        match enc.decode_u64_sequence(&bytes) {
+            Ok(g) => if g == vals { None } else { Some(format!("decodes to {}", hexes(&g))) },
+            Err(e) => Some(format!("fails to decode: {}", clip(&e))),
+        }
+    };
+    if let Some(b) = bad {
+        cx.violate("wrong_value", &site, format!("the {}-byte encoding of {} {}", bytes.len(), shown, b));
+        return;
+    }
+    cx.ev("decode -> equal");
+    cx.cell(format!("{}/n{}/{}", base, vals.len().min(20), SHAPES[shape]));
+    cx.nontrivial = vals.len() >= 2;
+}
+
+// ---- endian conversion
+
+trait Bits: EndianConvert + Debug {
+    fn from_bits(a: u64, b: u64) -> Self;
+    fn raw(&self) -> Vec<u8>;
+}
+macro_rules! bits_int {
+    ($($t:ty),*) => {$(
+        impl Bits for $t {
+            fn from_bits(a: u64, b: u64) -> Self {
+                (((a as u128) << 64) | b as u128) as $t
+            }
+            fn raw(&self) -> Vec<u8> {
+                self.to_ne_bytes().to_vec()
+            }
+        }
+    )*};
+}
+bits_int!(u8, u16, u32, u64, u128, usize, i8, i16, i32, i64, i128, isize);
+impl Bits for f32 {
+    fn from_bits(_a: u64, b: u64) -> Self {
+        f32::from_bits(b as u32)
+    }
+    fn raw(&self) -> Vec<u8> {
+        self.to_bits().to_ne_bytes().to_vec()
+    }
+}
+impl Bits for f64 {
+    fn from_bits(_a: u64, b: u64) -> Self {
+        f64::from_bits(b)
+    }
+    fn raw(&self) -> Vec<u8> {
+        self.to_bits().to_ne_bytes().to_vec()
+    }
+}
+
+/// Every pairing of an encoder and a decoder that zipora names for the same byte order must
+/// round-trip: EndianConvert::to_endian / from_endian, to_le/to_be / from_le/from_be,
+/// EndianIO::write_to_bytes / read_from_bytes, and the slice converters.
+fn endian_case<T: Bits>(cx: &mut Run, tname: &str, e: Endianness, raw: &[(u64, u64)], pad: usize) -> bool {
+    let vals: Vec<T> = raw.iter().map(|(a, b)| T::from_bits(*a, *b)).collect();
+    let io = EndianIO::<T>::new(e);
+    let native = EndianIO::<T>::native_endian();
+    let sz = std::mem::size_of::<T>();
+    let little = match e {
+        Endianness::Little => true,
+        Endianness::Big => false,
+        Endianness::Native => Endianness::native() == Endianness::Little,
+    };
+    let site_c = format!("EndianConvert<{}>", tname);
+    let site_io = format!("EndianIO<{}>", tname);
+    for (i, v) in vals.iter().enumerate() {
+        cx.steps += 1;
+        let w = v.to_endian(e);
+        if w.from_endian(e).raw() != v.raw() {
+            cx.violate("wrong_value", &site_c, format!("value #{} {:?}: from_endian({:?}) of to_endian({:?}) gives {:?}", i, v, e, e, w.from_endian(e)));
+            return false;
+        }
+        let named = if little { v.to_le() } else { v.to_be() };
+        let back = if little { named.from_le() } else { named.from_be() };
+        if named.raw() != w.raw() || back.raw() != v.raw() {
+            cx.violate("wrong_value", &site_c, format!("value #{} {:?}: to_{}() gives {:?} where to_endian({:?}) gives {:?}; from_{}() of it gives {:?}", i, v, if little { "le" } else { "be" }, named, e, w, if little { "le" } else { "be" }, back));
+            return false;
+        }
+        let mut buf = vec![0xA5u8; sz + pad];
+        if let Err(er) = io.write_to_bytes(*v, &mut buf) {
+            cx.violate("unexpected_error", &site_io, format!("write_to_bytes into {} bytes failed: {}", sz + pad, clip(&er)));
+            return false;
+        }
+        if buf[sz..].iter().any(|b| *b != 0xA5) {
+            cx.violate("range_overrun", &site_io, format!("write_to_bytes of a {}-byte value changed bytes after it", sz));
+            return false;
+        }
+        let own = io.read_from_bytes(&buf);
+        let via_native = native.read_from_bytes(&buf).map(|n| n.from_endian(e));
+        let mut b2 = vec![0u8; sz];
+        let _ = native.write_to_bytes(w, &mut b2);
+        let from_conv = io.read_from_bytes(&b2);
+        for (what, r) in [("read_from_bytes of write_to_bytes", own), ("from_endian of a native read of write_to_bytes", via_native), ("read_from_bytes of a native write of to_endian", from_conv)] {
+            match r {
+                Ok(g) => {
+                    if g.raw() != v.raw() {
+                        cx.violate("wrong_value", &site_io, format!("value #{} {:?} ({:?}): {} gives {:?}", i, v, e, what, g));
+                        return false;
+                    }
+                }
+                Err(er) => {
+                    cx.violate("unexpected_error", &site_io, format!("value #{} {:?} ({:?}): {} failed: {}", i, v, e, what, clip(&er)));
+                    return false;
+                }
+            }
+        }
+    }
+    // slices
+    cx.steps += 1;
+    let mut s = vals.clone();
+    io.convert_slice_to_endian(&mut s);
+    for (i, (c, v)) in s.iter().zip(vals.iter()).enumerate() {
+        if c.raw() != v.to_endian(e).raw() {
+            cx.violate("wrong_value", &format!("{}.convert_slice", site_io), format!("convert_slice_to_endian({:?}) element #{} of {}: {:?} became {:?}, to_endian gives {:?}", e, i, vals.len(), v, c, v.to_endian(e)));
+            return false;
+        }
+    }
+    io.convert_slice_from_endian(&mut s);
+    for (i, (c, v)) in s.iter().zip(vals.iter()).enumerate() {
+        if c.raw() != v.raw() {
+            cx.violate("wrong_value", &format!("{}.convert_slice", site_io), format!("convert_slice_from_endian({:?}) after convert_slice_to_endian: element #{} of {} is {:?}, was {:?}", e, i, vals.len(), c, v));
+            return false;
+        }
+    }
+    let shown: Vec<String> = vals.iter().take(6).map(|v| format!("{:02x?}", v.raw())).collect();
+    cx.ev(format!("{} values of {} ({:?}, native bytes {}{}, {} pad bytes): to/from_endian, to/from_{}, EndianIO bytes (3 pairings), slice converters -> equal", vals.len(), tname, e, shown.join(" "), if vals.len() > 6 { format!(" ..#{:08x}", fnv(&vals.iter().flat_map(|v| v.raw()).collect::<Vec<u8>>()) as u32) } else { String::new() }, pad, if little { "le" } else { "be" }));
+    true
+}
+
+const ENDIAN_TYPES: [&str; 14] = ["u8", "u16", "u32", "u64", "u128", "usize", "i8", "i16", "i32", "i64", "i128", "isize", "f32", "f64"];
+
+fn codec_endian(cx: &mut Run) {
+    let cfg = cx.src.chan("cfg");
+    let t = cfg.below(14) as usize;
+    let e = endianness(cfg.below(3) as u8);
+    let pad = *cfg.pick(&[0usize, 0, 1, 7]);
+    // around the 8-lane (u16) and 4-lane (u32) blocks of the SIMD converters
+    let planned = *cfg.pick(&[1u64, 2, 3, 4, 5, 7, 8, 9, 15, 16, 17, 20]);
+    let ops = take_ops(cx, "ops", planned);
+    let mut prev = 0u64;
+    let raw: Vec<(u64, u64)> = ops
+        .iter()
+        .map(|o| {
+            let v = rel_u64(prev, o, 64);
+            prev = v;
+            (v.rotate_left(17) ^ o[3], v)
+        })
+        .collect();
+    let ok = match t {
+        0 => endian_case::<u8>(cx, "u8", e, &raw, pad),
+        1 => endian_case::<u16>(cx, "u16", e, &raw, pad),
+        2 => endian_case::<u32>(cx, "u32", e, &raw, pad),
+        3 => endian_case::<u64>(cx, "u64", e, &raw, pad),
+        4 => endian_case::<u128>(cx, "u128", e, &raw, pad),
+        5 => endian_case::<usize>(cx, "usize", e, &raw, pad),
+        6 => endian_case::<i8>(cx, "i8", e, &raw, pad),
+        7 => endian_case::<i16>(cx, "i16", e, &raw, pad),
+        8 => endian_case::<i32>(cx, "i32", e, &raw, pad),
+        9 => endian_case::<i64>(cx, "i64", e, &raw, pad),
+        10 => endian_case::<i128>(cx, "i128", e, &raw, pad),
+        11 => endian_case::<isize>(cx, "isize", e, &raw, pad),
+        12 => endian_case::<f32>(cx, "f32", e, &raw, pad),
+        _ => endian_case::<f64>(cx, "f64", e, &raw, pad),
+    };
+    if !ok {
+        return;
+    }
+    // the header magic names the byte order it was written for
+    let resolved = match e {
+        Endianness::Native => Endianness::native(),
+        x => x,
+    };
+    let magic = zipora::io::endian::write_endianness_magic(e);
+    let det = zipora::io::endian::detect_endianness_from_magic(magic);
+    if det != Some(resolved) {
+        cx.violate("wrong_value", "endian.magic", format!("write_endianness_magic({:?}) = {:#x} is detected as {:?}", e, magic, det));
+        return;
+    }
+    // SIMD slice converters (u16, u32): the decoder of what to_le / to_be encoded.  Checked last.
+    #[cfg(target_arch = "x86_64")]
+    {
+        let little = resolved == Endianness::Little;
+        if t == 1 {
+            let vals: Vec<u16> = raw.iter().map(|(_, b)| *b as u16).collect();
+            let mut s: Vec<u16> = vals.iter().map(|v| if little { v.to_le() } else { v.to_be() }).collect();
+            zipora::io::endian::simd::convert_u16_slice_simd(&mut s, little);
+            if s != vals {
+                let j = s.iter().zip(vals.iter()).position(|(a, b)| a != b).unwrap_or(0);
+                cx.violate("wrong_value", "endian.simd.convert_u16_slice_simd", format!("{} values encoded with to_{}() and converted with from_little={}: element #{} is {:#x}, was {:#x}", vals.len(), if little { "le" } else { "be" }, little, j, s[j], vals[j]));
+                return;
+            }
+            cx.ev("convert_u16_slice_simd decodes to_le/to_be -> equal");
+        }
+        if t == 2 {
+            let vals: Vec<u32> = raw.iter().map(|(_, b)| *b as u32).collect();
+            let mut s: Vec<u32> = vals.iter().map(|v| if little { v.to_le() } else { v.to_be() }).collect();
+            zipora::io::endian::simd::convert_u32_slice_simd(&mut s, little);
+            if s != vals {
+                let j = s.iter().zip(vals.iter()).position(|(a, b)| a != b).unwrap_or(0);
+                cx.violate("wrong_value", "endian.simd.convert_u32_slice_simd", format!("{} values encoded with to_{}() and converted with from_little={}: element #{} is {:#x}, was {:#x}", vals.len(), if little { "le" } else { "be" }, little, j, s[j], vals[j]));
+                return;
+            }
+            cx.ev("convert_u32_slice_simd decodes to_le/to_be -> equal");
+        }
+    }
+    cx.cell(format!("endian/{}/{:?}", ENDIAN_TYPES[t], e));
+    cx.nontrivial = raw.len() >= 2;
+}
+
+// ---------------------------------------------------------------------------------------
+// several writer sessions over one file / one Vec: create over existing content, append after
+// existing content, MemoryMappedOutput::open + seek (append at the end, patch a header in place),
+// VecDataOutput::clear / reserve and reuse; then one reader over the result.
+
+fn enc_of(vals: &[Val]) -> ZResult<(Vec<u8>, Vec<usize>)> {
+    let mut o = VecDataOutput::new();
+    let mut ends = vec![];
+    for v in vals {
+        v.write(&mut DynOut(&mut o))?;
+        ends.push(o.len());
+    }
+    Ok((o.into_vec(), ends))
+}
+
+/// Write `vals` through `out`; after value i the writer must have advanced by `ends[i]` bytes.
+fn write_session(cx: &mut Run, out: &mut dyn PosOut, vals: &[Val], ends: &[usize], site: &str, tag: &str) -> bool {
+    let base = out.pos();
+    for (i, v) in vals.iter().enumerate() {
+        cx.steps += 1;
+        if let Err(e) = v.write(&mut DynOut(out.out())) {
+            cx.violate("unexpected_error", site, format!("{}: writing value #{} ({}) failed: {}", tag, i, v.desc(), clip(&e)));
+            return false;
+        }
+        if out.pos() - base != ends[i] as u64 {
+            cx.violate("length_mismatch", site, format!("{}: after value #{} ({}) the writer advanced {} bytes; the value sequence encodes to {} bytes so far", tag, i, v.desc(), out.pos() - base, ends[i]));
+            return false;
+        }
+        cx.ev(format!("{} w{} {} -> ok, writer at {}", tag, i, v.desc(), out.pos()));
+    }
+    if let Err(e) = out.finish() {
+        cx.violate("unexpected_error", site, format!("{}: flush failed: {}", tag, clip(&e)));
+        return false;
+    }
+    true
+}
+
+fn file_is(cx: &mut Run, file: &TmpFile, exp: &[u8], site: &str, tag: &str) -> Option<Vec<u8>> {
+    let got = std::fs::read(&file.0).unwrap_or_default();
+    if got != exp {
+        let j = got.iter().zip(exp.iter()).position(|(a, b)| a != b).unwrap_or(got.len().min(exp.len()));
+        cx.violate(if got.len() != exp.len() { "length_mismatch" } else { "wrong_value" }, site, format!("{}: the file holds {} bytes {}, expected {} bytes {} (first difference at byte {})", tag, got.len(), short_bytes(&got), exp.len(), short_bytes(exp), j));
+        return None;
+    }
+    cx.ev(format!("{}: the file holds exactly the expected {} bytes", tag, exp.len()));
+    Some(got)
+}
+
+fn sessions_run(cx: &mut Run) {
+    let cfg = cx.src.chan("cfg");
+    let file = TmpFile::new(true);
+    let junk_len = *cfg.pick(&[0usize, 0, 1, 9, 200, 5000]);
+    let w1 = cfg.below(5);
+    let mut w2 = cfg.below(5);
+    let rk = cfg.below(6);
+    let init = *cfg.pick(&[1usize, 8, 64, 4096]);
+    let planned = 2 + cfg.below(7);
+    let ops = take_ops(cx, "ops", planned);
+    let mut vals: Vec<Val> = ops.iter().enumerate().map(|(i, o)| gen_val(Fam::Prim, i, *o, 300)).collect();
+    if vals.is_empty() {
+        return;
+    }
+    if w2 == 3 {
+        // a fixed-width header that the second session patches in place
+        vals[0] = Val::U64(gen_u64(ops[0][1], ops[0][2], 0));
+    }
+    let na = if w2 == 0 || w2 == 3 { vals.len() } else { 1 + cfg.below(vals.len() as u64) as usize };
+    let (a, b) = vals.split_at(na.min(vals.len()));
+    let (enc_a, ends_a, enc_b, ends_b) = match (enc_of(a), enc_of(b)) {
+        (Ok((x, y)), Ok((z, w))) => (x, y, z, w),
+        _ => {
+            cx.violate("unexpected_error", "VecDataOutput.encode", "encoding the values into a Vec failed");
+            return;
+        }
+    };
+    let junk = pattern(junk_len, 77);
+    if junk_len > 0 && std::fs::write(&file.0, &junk).is_err() {
+        cx.abandoned = true;
+        return;
+    }
+    let w1_name = ["FileDataOutput.create", "FileDataOutput.create", "FileDataOutput.append", "FileDataOutput.append", "MemoryMappedOutput.create"][w1 as usize];
+    cx.ev(format!("the file {}; session 1: {}{}", if junk_len > 0 { format!("already holds {} bytes", junk_len) } else { "does not exist".to_string() }, ["FileDataOutput::create", "io::to_file", "FileDataOutput::append", "io::to_file_append", "MemoryMappedOutput::create"][w1 as usize], if w1 == 4 { format!("(initial_size={}) + truncate", init) } else { String::new() }));
+    let append1 = w1 == 2 || w1 == 3;
+    let mut skip0 = if append1 { junk_len } else { 0 };
+    let mut exp: Vec<u8> = if append1 { junk.clone() } else { vec![] };
+    {
+        let made: ZResult<Box<dyn PosOut>> = match w1 {
+            0 => FileDataOutput::create(&file.0).map(|f| Box::new(FOut(f)) as Box<dyn PosOut>),
+            1 => zipora::io::to_file(&file.0).map(|f| Box::new(FOut(f)) as Box<dyn PosOut>),
+            2 => FileDataOutput::append(&file.0).map(|f| Box::new(FOut(f)) as Box<dyn PosOut>),
+            3 => zipora::io::to_file_append(&file.0).map(|f| Box::new(FOut(f)) as Box<dyn PosOut>),
+            _ => MemoryMappedOutput::create(&file.0, init).map(|m| Box::new(MOut(m, true)) as Box<dyn PosOut>),
+        };
+        let mut out = match made {
+            Ok(o) => o,
+            Err(e) => {
+                cx.violate("unexpected_error", w1_name, format!("session 1: cannot create the writer: {}", clip(&e)));
+                return;
+            }
+        };
+        if !write_session(cx, out.as_mut(), a, &ends_a, w1_name, "s1") {
+            return;
+        }
+    }
+    exp.extend_from_slice(&enc_a);
+    if file_is(cx, &file, &exp, w1_name, "after session 1").is_none() {
+        return;
+    }
+    // what a reader is expected to find: (value, offset of its end)
+    let mut readable: Vec<(Val, usize)> = a.iter().cloned().zip(ends_a.iter().map(|e| skip0 + e)).collect();
+    if w2 == 2 && exp.is_empty() {
+        w2 = 0;
+    }
+    match w2 {
+        0 => cx.ev("no second session"),
+        1 => {
+            cx.ev("session 2: FileDataOutput::append");
+            let mut out = match FileDataOutput::append(&file.0) {
+                Ok(f) => FOut(f),
+                Err(e) => {
+                    cx.violate("unexpected_error", "FileDataOutput.append", format!("session 2: {}", clip(&e)));
+                    return;
+                }
+            };
+            if !write_session(cx, &mut out, b, &ends_b, "FileDataOutput.append", "s2") {
+                return;
+            }
+            let at = exp.len();
+            readable.extend(b.iter().cloned().zip(ends_b.iter().map(|e| at + e)));
+            exp.extend_from_slice(&enc_b);
+        }
+        2 | 3 => {
+            let site = "MemoryMappedOutput.open";
+            let mut m = match MemoryMappedOutput::open(&file.0) {
+                Ok(m) => m,
+                Err(e) => {
+                    cx.violate("unexpected_error", site, format!("session 2: opening the {}-byte file failed: {}", exp.len(), clip(&e)));
+                    return;
+                }
+            };
+            if m.capacity() != exp.len() || m.position() != 0 || m.remaining() != exp.len() {
+                cx.violate("wrong_position", site, format!("a {}-byte file opens with capacity()={} position()={} remaining()={}", exp.len(), m.capacity(), m.position(), m.remaining()));
+                return;
+            }
+            if m.seek(exp.len() + 1).is_ok() || m.position() != 0 || m.remaining() != exp.len() {
+                cx.violate("wrong_position", site, format!("seek({}) beyond the capacity {} succeeded or moved the cursor: position()={} remaining()={}", exp.len() + 1, exp.len(), m.position(), m.remaining()));
+                return;
+            }
+            let target = if w2 == 2 { exp.len() } else { skip0 };
+            if let Err(e) = m.seek(target) {
+                cx.violate("unexpected_error", site, format!("seek({}) within capacity {} failed: {}", target, exp.len(), clip(&e)));
+                return;
+            }
+            if w2 == 2 {
+                cx.ev(format!("session 2: MemoryMappedOutput::open, seek({}) to the end, write, truncate", target));
+                let mut out = MOut(m, true);
+                if !write_session(cx, &mut out, b, &ends_b, site, "s2") {
+                    return;
+                }
+                let at = exp.len();
+                readable.extend(b.iter().cloned().zip(ends_b.iter().map(|e| at + e)));
+                exp.extend_from_slice(&enc_b);
+            } else {
+                let new = gen_u64(3, ops[0][3], 1) ^ 0x5A5A;
+                cx.ev(format!("session 2: MemoryMappedOutput::open, seek({}), overwrite the u64 header with {:#x}, flush", target, new));
+                let r = m.write_u64(new).and_then(|_| DataOutput::flush(&mut m));
+                if let Err(e) = r {
+                    cx.violate("unexpected_error", site, format!("patching 8 bytes at {} failed: {}", target, clip(&e)));
+                    return;
+                }
+                if m.position() != target + 8 || m.capacity() != exp.len() {
+                    cx.violate("wrong_position", site, format!("after writing 8 bytes at {}: position()={} capacity()={} (file of {})", target, m.position(), m.capacity(), exp.len()));
+                    return;
+                }
+                exp[target..target + 8].copy_from_slice(&new.to_le_bytes());
+                readable[0].0 = Val::U64(new);
+            }
+        }
+        _ => {
+            cx.ev("session 2: FileDataOutput::create over the file written by session 1");
+            let mut out = match FileDataOutput::create(&file.0) {
+                Ok(f) => FOut(f),
+                Err(e) => {
+                    cx.violate("unexpected_error", "FileDataOutput.create", format!("session 2: {}", clip(&e)));
+                    return;
+                }
+            };
+            if !write_session(cx, &mut out, b, &ends_b, "FileDataOutput.create", "s2") {
+                return;
+            }
+            exp = enc_b.clone();
+            skip0 = 0;
+            readable = b.iter().cloned().zip(ends_b.iter().copied()).collect();
+        }
+    }
+    let w2_name = ["-", "FileDataOutput.append", "MemoryMappedOutput.open", "MemoryMappedOutput.open", "FileDataOutput.create"][w2 as usize];
+    let got = match file_is(cx, &file, &exp, if w2 == 0 { w1_name } else { w2_name }, "after the last session") {
+        Some(g) => g,
+        None => return,
+    };
+    let total = exp.len();
+    if total == 0 {
+        cx.ev("the file is empty: no reader is opened");
+        cx.nontrivial = true;
+        return;
+    }
+    // ---- one reader over everything
+    let open = |p: &PathBuf| std::fs::File::open(p).map_err(to_z);
+    let rname = ["MmapDataInput::open", "io::from_file", "MemoryMappedInput::from_path", "io::from_reader(File)", "io::from_slice", "ReaderDataInput<MmapZeroCopyReader>"][rk as usize];
+    let rsite = ["MmapDataInput", "MmapDataInput", "MemoryMappedInput", "ReaderDataInput<File>", "SliceDataInput", "MmapZeroCopyReader"][rk as usize];
+    cx.ev(format!("reader: {}", rname));
+    let made: ZResult<Box<dyn PosIn + '_>> = match rk {
+        0 => MmapDataInput::open(&file.0).map(|r| Box::new(MDIn(r)) as Box<dyn PosIn>),
+        1 => zipora::io::from_file(&file.0).map(|r| Box::new(MDIn(r)) as Box<dyn PosIn>),
+        2 => MemoryMappedInput::from_path(&file.0).map(|r| Box::new(MMIn(r)) as Box<dyn PosIn>),
+        3 => open(&file.0).map(|f| Box::new(RIn(zipora::io::from_reader(Box::new(f) as Box<dyn Read>))) as Box<dyn PosIn>),
+        4 => Ok(Box::new(SIn(zipora::io::from_slice(&got))) as Box<dyn PosIn>),
+        _ => open(&file.0).and_then(MmapZeroCopyReader::new).map(|r| Box::new(RIn(ReaderDataInput::new(Box::new(r) as Box<dyn Read>))) as Box<dyn PosIn>),
+    };
+    let mut inp = match made {
+        Ok(i) => i,
+        Err(e) => {
+            cx.violate("unexpected_error", &format!("{}.open", rsite), format!("opening the {}-byte file failed: {}", total, clip(&e)));
+            return;
+        }
+    };
+    if skip0 > 0 {
+        if let Err(e) = inp.inp().skip(skip0) {
+            cx.violate("unexpected_error", &format!("{}.skip", rsite), format!("skip({}) over the older content failed: {}", skip0, clip(&e)));
+            return;
+        }
+        if inp.pos() != skip0 as u64 {
+            cx.violate("consumed_mismatch", &format!("{}.skip", rsite), format!("skip({}) left the reader at {}", skip0, inp.pos()));
+            return;
+        }
+    }
+    for (i, (v, end)) in readable.iter().enumerate() {
+        cx.steps += 1;
+        match v.read_check(&mut DynIn(inp.inp())) {
+            Ok(None) => {
+                if inp.pos() != *end as u64 {
+                    cx.violate("consumed_mismatch", &format!("{}.read", rsite), format!("value #{} ({}) decoded to an equal value but the reader is at {} where the value ends at {}", i, v.desc(), inp.pos(), end));
+                    return;
+                }
+                cx.ev(format!("r{} -> equal, reader at {}", i, inp.pos()));
+            }
+            Ok(Some(g)) => {
+                cx.violate("wrong_value", &format!("{}.read", rsite), format!("value #{} written as {} was read back as {}", i, v.desc(), g));
+                return;
+            }
+            Err(e) => {
+                cx.violate("unexpected_error", &format!("{}.read", rsite), format!("reading value #{} ({}) failed: {}", i, v.desc(), clip(&e)));
+                return;
+            }
+        }
+    }
+    if let Ok(x) = inp.inp().read_u8() {
+        cx.violate("read_past_end", &format!("{}.read", rsite), format!("after all {} bytes were consumed the reader still returned a byte ({:#x})", total, x));
+        return;
+    }
+    drop(inp);
+    // the inherent views of the two mmap readers
+    let bounds_of: Vec<(usize, usize)> = readable.iter().enumerate().map(|(i, (_, e))| (if i == 0 { skip0 } else { readable[i - 1].1 }, *e)).collect();
+    if rk == 0 || rk == 1 {
+        if let Ok(mut r) = MmapDataInput::open(&file.0) {
+            let k = (ops[0][0] as usize) % bounds_of.len();
+            let at = bounds_of[k].0;
+            let _ = r.skip(at);
+            if r.len() != total || r.is_empty() || r.as_slice() != &exp[..] || r.pos() != at || r.remaining() != total - at || r.remaining_slice() != &exp[at..] || DataInput::has_remaining(&r) != Some(at < total) {
+                cx.violate("wrong_position", "MmapDataInput.views", format!("after skip({}) in a {}-byte file: len()={} pos()={} remaining()={} remaining_slice() of {} bytes, has_remaining()={:?}", at, total, r.len(), r.pos(), r.remaining(), r.remaining_slice().len(), DataInput::has_remaining(&r)));
+                return;
+            }
+            cx.ev(format!("MmapDataInput views after skip({}) -> consistent", at));
+        }
+    }
+    if rk == 5 {
+        let mut z = match open(&file.0).and_then(MmapZeroCopyReader::new) {
+            Ok(z) => z,
+            Err(e) => {
+                cx.violate("unexpected_error", "MmapZeroCopyReader.open", clip(&e));
+                return;
+            }
+        };
+        if z.len() != total || z.is_empty() || z.zc_available() != total || z.as_slice() != &exp[..] {
+            cx.violate("wrong_position", "MmapZeroCopyReader.zc", format!("a fresh reader over {} bytes: len()={} zc_available()={}", total, z.len(), z.zc_available()));
+            return;
+        }
+        for (i, (s, e)) in bounds_of.iter().enumerate() {
+            cx.steps += 1;
+            let n = e - s;
+            if z.set_position(*s).is_err() {
+                cx.violate("unexpected_error", "MmapZeroCopyReader.zc", format!("set_position({}) in {} bytes failed", s, total));
+                return;
+            }
+            let ok = match z.zc_read(n) {
+                Ok(Some(sl)) => sl == &exp[*s..*e],
+                _ => false,
+            };
+            let adv = z.zc_advance(n).is_ok();
+            if !ok || !adv || z.position() != *e || z.zc_available() != total - e || z.remaining_slice() != &exp[*e..] || z.zc_ensure(n + 1).ok() != Some((total - e).min(n + 1)) {
+                cx.violate("wrong_value", "MmapZeroCopyReader.zc", format!("value #{} at {}..{} of {}: zc_read gave the right bytes: {}, zc_advance ok: {}, position()={} zc_available()={}", i, s, e, total, ok, adv, z.position(), z.zc_available()));
+                return;
+            }
+        }
+        let _ = z.set_position(total);
+        if !matches!(z.zc_read(1), Ok(None)) || z.zc_advance(1).is_ok() || z.set_position(total + 1).is_ok() {
+            cx.violate("read_past_end", "MmapZeroCopyReader.zc", format!("at the end of {} bytes zc_read(1) / zc_advance(1) / set_position({}) did not refuse", total, total + 1));
+            return;
+        }
+        cx.ev("MmapZeroCopyReader set_position / zc_read / zc_advance over every value -> equal");
+    }
+    cx.cell(format!("sessions/{}/{}/{}", w1_name, w2_name, rsite));
+    cx.nontrivial = readable.len() >= 2;
+}
+
+fn vec_reuse(cx: &mut Run) {
+    let cfg = cx.src.chan("cfg");
+    let ctor = cfg.below(4);
+    let action = cfg.below(4);
+    let planned = 2 + cfg.below(8);
+    let ops = take_ops(cx, "ops", planned);
+    let vals: Vec<Val> = ops.iter().enumerate().map(|(i, o)| gen_val(Fam::Prim, i, *o, 300)).collect();
+    if vals.is_empty() {
+        return;
+    }
+    let na = 1 + cfg.below(vals.len() as u64) as usize;
+    let (a, b) = vals.split_at(na.min(vals.len()));
+    let (enc_a, ends_a, enc_b, ends_b) = match (enc_of(a), enc_of(b)) {
+        (Ok((x, y)), Ok((z, w))) => (x, y, z, w),
+        _ => {
+            cx.violate("unexpected_error", "VecDataOutput.encode", "encoding the values into a Vec failed");
+            return;
+        }
+    };
+    let site = "VecDataOutput.reuse";
+    let mut o = match ctor {
+        0 => VecDataOutput::new(),
+        1 => VecDataOutput::default(),
+        2 => zipora::io::to_vec(),
+        _ => zipora::io::to_vec_with_capacity(cfg.below(40) as usize),
+    };
+    cx.ev(format!("VecDataOutput ({}): {} values, then {}, then {} values", ["new", "default", "to_vec", "to_vec_with_capacity"][ctor as usize], a.len(), ["clear()", "nothing", "reserve()", "clear() twice"][action as usize], b.len()));
+    if !o.is_empty() || o.len() != 0 {
+        cx.violate("wrong_position", site, format!("a fresh output has len()={}", o.len()));
+        return;
+    }
+    for (i, v) in a.iter().enumerate() {
+        cx.steps += 1;
+        if v.write(&mut DynOut(&mut o)).is_err() || o.len() != ends_a[i] {
+            cx.violate("length_mismatch", site, format!("after value #{} ({}) len()={} expected {}", i, v.desc(), o.len(), ends_a[i]));
+            return;
+        }
+    }
+    if o.as_slice() != &enc_a[..] {
+        cx.violate("wrong_value", site, format!("as_slice() holds {} instead of {}", short_bytes(o.as_slice()), short_bytes(&enc_a)));
+        return;
+    }
+    let mut exp: Vec<u8> = enc_a.clone();
+    match action {
+        0 | 3 => {
+            o.clear();
+            if action == 3 {
+                o.clear();
+            }
+            exp.clear();
+            if !o.is_empty() || DataOutput::position(&o) != Some(0) || DataOutput::bytes_written(&o) != Some(0) {
+                cx.violate("wrong_position", site, format!("after clear(): len()={} position()={:?} bytes_written()={:?}", o.len(), DataOutput::position(&o), DataOutput::bytes_written(&o)));
+                return;
+            }
+        }
+        2 => o.reserve(*cfg.pick(&[0usize, 1, 64, 5000])),
+        _ => {}
+    }
+    let base = exp.len();
+    for (i, v) in b.iter().enumerate() {
+        cx.steps += 1;
+        if v.write(&mut DynOut(&mut o)).is_err() || o.len() != base + ends_b[i] {
+            cx.violate("length_mismatch", site, format!("second batch: after value #{} ({}) len()={} expected {}", i, v.desc(), o.len(), base + ends_b[i]));
+            return;
+        }
+    }
+    exp.extend_from_slice(&enc_b);
+    let bytes = o.into_vec();
+    if bytes != exp {
+        cx.violate("wrong_value", site, format!("into_vec() gives {} instead of {}", short_bytes(&bytes), short_bytes(&exp)));
+        return;
+    }
+    cx.ev(format!("into_vec() -> the expected {} bytes", exp.len()));
+    // read back with the slice reader's own views checked at every value boundary
+    let readable: Vec<(&Val, usize)> = if base == 0 { b.iter().zip(ends_b.iter().copied()).collect() } else { a.iter().zip(ends_a.iter().copied()).chain(b.iter().zip(ends_b.iter().map(|e| base + e))).collect() };
+    let mut inp = SliceDataInput::new(&bytes);
+    for (i, (v, end)) in readable.iter().enumerate() {
+        cx.steps += 1;
+        match v.read_check(&mut DynIn(&mut inp)) {
+            Ok(None) => {}
+            Ok(Some(g)) => {
+                cx.violate("wrong_value", "SliceDataInput.read", format!("value #{} written as {} was read back as {}", i, v.desc(), g));
+                return;
+            }
+            Err(e) => {
+                cx.violate("unexpected_error", "SliceDataInput.read", format!("reading value #{} ({}) failed: {}", i, v.desc(), clip(&e)));
+                return;
+            }
+        }
+        let p = inp.pos();
+        if p != *end || inp.remaining() != bytes.len() - p || inp.has_more() != (p < bytes.len()) || inp.remaining_slice() != &bytes[p..] || DataInput::position(&inp) != Some(p as u64) || DataInput::has_remaining(&inp) != Some(p < bytes.len()) {
+            cx.violate("wrong_position", "SliceDataInput.views", format!("after value #{} (ends at {} of {}): pos()={} remaining()={} has_more()={} remaining_slice() of {} bytes, position()={:?} has_remaining()={:?}", i, end, bytes.len(), p, inp.remaining(), inp.has_more(), inp.remaining_slice().len(), DataInput::position(&inp), DataInput::has_remaining(&inp)));
+            return;
+        }
+    }
+    cx.ev(format!("{} values read back through SliceDataInput, views consistent", readable.len()));
+    // WriterDataOutput over a Vec: typed writes mixed with its own io::Write side, then into_inner
+    let mut w = zipora::io::to_writer(Vec::<u8>::new());
+    let mut exp2: Vec<u8> = vec![];
+    for (i, v) in vals.iter().enumerate() {
+        cx.steps += 1;
+        if ops[i][3] % 3 == 0 {
+            let chunk = pattern(1 + (ops[i][2] % 9) as usize, i + 50);
+            if Write::write_all(&mut w, &chunk).is_err() {
+                cx.violate("unexpected_error", "WriterDataOutput.io_write", "write_all into a Vec failed");
+                return;
+            }
+            exp2.extend_from_slice(&chunk);
+        }
+        if v.write(&mut DynOut(&mut w)).is_err() {
+            cx.violate("unexpected_error", "WriterDataOutput.io_write", format!("writing value #{} failed", i));
+            return;
+        }
+        if let Ok((one, _)) = enc_of(std::slice::from_ref(v)) {
+            exp2.extend_from_slice(&one);
+        }
+        if w.bytes_written() != exp2.len() as u64 {
+            cx.violate("length_mismatch", "WriterDataOutput.io_write", format!("after value #{} bytes_written()={} but {} bytes were handed over", i, w.bytes_written(), exp2.len()));
+            return;
+        }
+    }
+    let inner = w.into_inner();
+    if inner != exp2 {
+        cx.violate("wrong_value", "WriterDataOutput.io_write", format!("into_inner() gives {} instead of {}", short_bytes(&inner), short_bytes(&exp2)));
+        return;
+    }
+    cx.ev(format!("WriterDataOutput<Vec>: typed and io::Write writes interleaved, into_inner() -> the expected {} bytes", exp2.len()));
+    cx.nontrivial = vals.len() >= 2;
+}
+
+
+// ---------------------------------------------------------------------------------------
+// continued use after a refused operation.  Every DataInput back end is asked for more than
+// remains (read_u16..u64 / read_bytes / read_vec / skip past the end, including lengths near
+// usize::MAX) in the middle of ordinary reads, and is then used again.  Positioned back ends
+// (slice, mmap, MemoryMappedInput, RangeReader's own DataInput) check their bounds before they
+// move: the refused call must not consume anything and the next reads continue from the same
+// cursor.  Reader-backed inputs (ReaderDataInput over anything) may have consumed an unspecified
+// amount in the failed read_exact: from then on only "no panic, nothing invented" is demanded
+// (whatever is returned must be bytes that really lie at or after the old cursor).
+
+struct RgCur(RangeReader<Cursor<Vec<u8>>>);
+impl PosIn for RgCur {
+    fn inp(&mut self) -> &mut dyn DataInput {
+        &mut self.0
+    }
+    fn pos(&self) -> u64 {
+        DataInput::position(&self.0).unwrap_or(u64::MAX)
+    }
+    fn views(&self, data: &[u8], pos: usize) -> Option<String> {
+        let (cp, rem, end) = (self.0.current_position() - self.0.start_position(), self.0.remaining(), self.0.is_at_end());
+        if cp != pos as u64 || rem != (data.len() - pos) as u64 || end != (pos >= data.len()) {
+            Some(format!("current_position()-start={} remaining()={} is_at_end()={}", cp, rem, end))
+        } else {
+            None
+        }
+    }
+}
+
+const RF_BE: [&str; 9] = ["SliceDataInput", "MmapDataInput", "MemoryMappedInput(BufferedIO)", "MemoryMappedInput(mmap)", "RangeReader", "ReaderDataInput<Cursor>", "ReaderDataInput<StreamBufferedReader>", "ReaderDataInput<ZeroCopyReader>", "ReaderDataInput<RangeReader>"];
+
+fn refused_ops(cx: &mut Run) {
+    let cfg = cx.src.chan("cfg");
+    let be = cfg.below(9) as usize;
+    let name = RF_BE[be];
+    let positioned = be <= 4;
+    let len = match be {
+        1 => 1 + cfg.below(40) as usize,
+        2 => *cfg.pick(&[1usize, 2, 9, 40, 4096]),
+        3 => 4097 + cfg.below(30) as usize,
+        _ => [cfg.below(41) as usize, 5000][cfg.weighted(&[9, 1])],
+    };
+    let data = pattern(len, 53 + be);
+    let file = TmpFile::new(be >= 1 && be <= 3);
+    if be >= 1 && be <= 3 && std::fs::write(&file.0, &data).is_err() {
+        cx.abandoned = true;
+        return;
+    }
+    let lead = cfg.below(7) as usize;
+    let wrapped: Vec<u8> = pattern(lead, 3).into_iter().chain(data.iter().copied()).chain(pattern(5, 4)).collect();
+    let made: ZResult<Box<dyn PosIn + '_>> = match be {
+        0 => Ok(Box::new(SIn(SliceDataInput::new(&data)))),
+        1 => MmapDataInput::open(&file.0).map(|r| Box::new(MDIn(r)) as Box<dyn PosIn>),
+        2 | 3 => MemoryMappedInput::from_path(&file.0).map(|r| Box::new(MMIn(r)) as Box<dyn PosIn>),
+        4 => RangeReader::new_and_seek(Cursor::new(wrapped.clone()), lead as u64, len as u64).map(|r| Box::new(RgCur(r)) as Box<dyn PosIn>),
+        5 => Ok(Box::new(RIn(ReaderDataInput::new(Box::new(Cursor::new(data.clone())) as Box<dyn Read>)))),
+        6 => {
+            let (c, _) = draw_sb_cfg(&cfg);
+            StreamBufferedReader::with_config(Cursor::new(data.clone()), c).map(|r| Box::new(RIn(ReaderDataInput::new(Box::new(r) as Box<dyn Read>))) as Box<dyn PosIn>)
+        }
+        7 => ZeroCopyReader::with_capacity(Cursor::new(data.clone()), draw_zc_cap(&cfg)).map(|r| Box::new(RIn(ReaderDataInput::new(Box::new(r) as Box<dyn Read>))) as Box<dyn PosIn>),
+        _ => RangeReader::new_and_seek(Cursor::new(wrapped.clone()), lead as u64, len as u64).map(|r| Box::new(RIn(ReaderDataInput::new(Box::new(r) as Box<dyn Read>))) as Box<dyn PosIn>),
+    };
+    let mut inp = match made {
+        Ok(i) => i,
+        Err(e) => {
+            cx.violate("unexpected_error", &format!("{}.open", name), clip(&e));
+            return;
+        }
+    };
+    cx.ev(format!("{} over {} bytes", name, len));
+    let planned = 4 + cfg.below(9);
+    let ops = take_ops(cx, "ops", planned);
+    let mut pos = 0usize;
+    // Some(min): a refused read on a reader-backed input may have consumed anything from `min` on
+    let mut unknown: Option<usize> = None;
+    let mut refusals = 0;
+    for o in &ops {
+        cx.steps += 1;
+        let rem = len - pos;
+        let over = o[0] % 10 >= 7;
+        // (operation, requested bytes)
+        let (op, n): (u64, usize) = if over {
+            let fixed: Vec<(u64, usize)> = [(1u64, 2usize), (2, 4), (3, 8)].iter().copied().filter(|(_, w)| *w > rem).collect();
+            if o[1] % 3 == 0 && !fixed.is_empty() {
+                fixed[(o[2] as usize) % fixed.len()]
+            } else {
+                let k = 4 + o[1] % 3;
+                let n = match (k, o[3] % 4) {
+                    (6, 0) => usize::MAX - (o[2] % 3) as usize,
+                    (6, 1) => (isize::MAX as usize) + (o[2] % 3) as usize,
+                    (5, 0) => usize::MAX - (o[2] % 3) as usize,
+                    _ => rem + 1 + (o[2] % 3) as usize,
+                };
+                (k, n)
+            }
+        } else {
+            match o[0] % 7 {
+                0 => (0, 1),
+                1 => (1, 2),
+                2 => (2, 4),
+                3 => (3, 8),
+                k => (k, (o[2] as usize) % 12),
+            }
+        };
+        let opname = ["read_u8", "read_u16", "read_u32", "read_u64", "read_bytes", "read_vec", "skip"][op as usize];
+        let what = if op <= 3 { opname.to_string() } else { format!("{}({})", opname, n) };
+        if n > len + 8 {
+            cx.ev(format!("{} at cursor {} ...", what, pos));
+        }
+        let r: ZResult<Vec<u8>> = {
+            let i = inp.inp();
+            match op {
+                0 => i.read_u8().map(|v| vec![v]),
+                1 => i.read_u16().map(|v| v.to_le_bytes().to_vec()),
+                2 => i.read_u32().map(|v| v.to_le_bytes().to_vec()),
+                3 => i.read_u64().map(|v| v.to_le_bytes().to_vec()),
+                4 => {
+                    let mut b = vec![0u8; n];
+                    i.read_bytes(&mut b).map(|_| b)
+                }
+                5 => i.read_vec(n),
+                _ => i.skip(n).map(|_| vec![]),
+            }
+        };
+        let fits = n <= rem;
+        if let Some(min) = unknown {
+            // state after a refusal on a reader-backed input: nothing may be invented
+            match r {
+                Ok(b) => {
+                    let genuine = op == 6 || b.is_empty() || data[min..].windows(b.len()).any(|w| w == &b[..]);
+                    if !genuine {
+                        cx.violate("wrong_value", &format!("{}.after_refusal", name), format!("{} after a refused call returned {} which lies nowhere at or after byte {} of the input", what, short_bytes(&b), min));
+                        return;
+                    }
+                    cx.ev(format!("{} -> Ok ({} bytes that exist at or after {})", what, b.len(), min));
+                }
+                Err(_) => cx.ev(format!("{} -> Err", what)),
+            }
+            if inp.pos() > len as u64 {
+                cx.violate("wrong_position", &format!("{}.after_refusal", name), format!("the input reports position {} in {} bytes", inp.pos(), len));
+                return;
+            }
+            continue;
+        }
+        match r {
+            Ok(b) => {
+                if !fits {
+                    cx.violate("read_past_end", &format!("{}.refusal", name), format!("{} at {} succeeded although only {} bytes remain", what, pos, rem));
+                    return;
+                }
+                if op != 6 && b[..] != data[pos..pos + n] {
+                    cx.violate("wrong_value", &format!("{}.{}", name, if refusals > 0 { "after_refusal" } else { "read" }), format!("{} at {} returned {} instead of {} ({} refused call(s) before)", what, pos, short_bytes(&b), short_bytes(&data[pos..pos + n]), refusals));
+                    return;
+                }
+                pos += n;
+                cx.ev(format!("{} -> ok, cursor {}", what, pos));
+            }
+            Err(e) => {
+                if fits {
+                    cx.violate("unexpected_error", &format!("{}.{}", name, if refusals > 0 { "after_refusal" } else { "read" }), format!("{} at {} with {} bytes remaining failed ({} refused call(s) before): {}", what, pos, rem, refusals, clip(&e)));
+                    return;
+                }
+                refusals += 1;
+                cx.probe(if n > len + 8 { "refused_huge" } else { "refused" });
+                cx.ev(format!("{} at {} ({} remain) -> Err (refused)", what, pos, rem));
+                if !positioned {
+                    unknown = Some(pos);
+                    continue;
+                }
+            }
+        }
+        // the cursor as every view of the back end shows it
+        let (p, tp, hr) = (inp.pos(), inp.inp().position(), inp.inp().has_remaining());
+        let cursor_ok = p == pos as u64 && tp.map_or(true, |q| q == pos as u64) && hr.map_or(true, |h| h == (pos < len));
+        // (the slice-returning views are only asked once the cursor itself is known to be in bounds)
+        let views = if cursor_ok { inp.views(&data, pos) } else { None };
+        if !cursor_ok || views.is_some() {
+            let (class, site) = if refusals > 0 { ("refused_op_consumed", format!("{}.after_refusal", name)) } else { ("wrong_position", format!("{}.read", name)) };
+            cx.violate(class, &site, format!("after {} the cursor is {} of {} ({} refused call(s) so far) but pos()={} position()={:?} has_remaining()={:?} {}", what, pos, len, refusals, p, tp, hr, views.unwrap_or_default()));
+            return;
+        }
+    }
+    cx.cell(format!("refused/{}/{}", name, if refusals > 0 { "refused" } else { "none" }));
+    cx.nontrivial = ops.len() >= 3;
+}
+
+// ---------------------------------------------------------------------------------------
 // scenarios
 
 enum Kind {
@@ -2836,6 +4391,14 @@ enum Kind {
     SeekRangeReader,
     SeekRangeWriter,
     MmapInput,
+    CodecVarInt,
+    CodecSimdVarint,
+    CodecStrategySingle,
+    CodecStrategySequence,
+    CodecEndian,
+    Sessions,
+    VecReuse,
+    RefusedOps,
 }
 struct Sc {
     name: &'static str,
@@ -2864,6 +4427,14 @@ impl Scenario for Sc {
             Kind::SeekRangeReader => seek_range_reader(cx),
             Kind::SeekRangeWriter => seek_range_writer(cx),
             Kind::MmapInput => api_mmap_input(cx),
+            Kind::CodecVarInt => codec_var_int(cx),
+            Kind::CodecSimdVarint => codec_simd_varint(cx),
+            Kind::CodecStrategySingle => codec_strategy_single(cx),
+            Kind::CodecStrategySequence => codec_strategy_sequence(cx),
+            Kind::CodecEndian => codec_endian(cx),
+            Kind::Sessions => sessions_run(cx),
+            Kind::VecReuse => vec_reuse(cx),
+            Kind::RefusedOps => refused_ops(cx),
         }
     }
 }
@@ -2895,11 +4466,14 @@ fn main() {
         "C13",
         "exploration",
         "seeded typed value sequences x seeded writer/reader stacks x seeded benign (clean) or hard (faulty) stream faults; \
+         plus pure codec scenarios (related integers x strategies), multi-session files and refused-operation histories; \
          non-trivial = at least 2 values written and read back (API scenarios: at least 3 operations); \
          distinct = distinct hash of (configuration, operations, observed results, injected faults)",
     );
     spec.assumptions = vec![
-        "only encoder/decoder pairs that run over a stream back end are decided; the slice-only strategies of var_int_variants / simd_encoding are pure functions and not exercised".into(),
+        "the slice-only codecs (VarInt, SignedVarInt, VarIntEncoder strategies, SimdVarintCodec, EndianConvert/EndianIO) are exercised by the codec/* scenarios as pure functions: related integers under a per-run bit-width cap, every single-value decoder sees its value followed by the next encoding; the SIMD tier is the host's".into(),
+        "a refused call (more bytes asked for than remain) must leave positioned inputs (slice, mmap, MemoryMappedInput, RangeReader's DataInput) where they were; after a refused call on a Read-backed input only 'no panic, nothing invented' is demanded".into(),
+        "two encoders/decoders that zipora names for the same byte order (to_be / EndianIO::big_endian / convert_slice_to_endian(Big) / simd converters) are treated as corresponding pairs".into(),
         "hard faults are injected on one side per run (writer or reader); the other side sees benign short transfers only".into(),
         "a live rc::Weak / sync::Weak is checked for byte consumption only (a stand-alone decoded Weak cannot own its referent)".into(),
         "Version values stay within the documented packed format 0xMMmmpppp (major, minor <= 255)".into(),
@@ -2907,6 +4481,7 @@ fn main() {
     ];
     spec.components = vec![
         ("io::data_input / data_output / var_int", "real"),
+        ("io::var_int_variants, simd_encoding::varint", "real (pure, codec/* scenarios)"),
         ("io::stream_buffer, range_stream, zero_copy, mmap", "real"),
         ("io::complex_types, smart_ptr, versioning, endian", "real"),
         ("storage medium", "stub (in-memory Cursor behind FaultyRead/FaultyWrite; real files in /dev/shm for the mmap back ends)"),
@@ -2954,6 +4529,14 @@ fn main() {
         ("range/reader_seek", Kind::SeekRangeReader, 3500),
         ("range/writer_seek", Kind::SeekRangeWriter, 3500),
         ("file_mmap/input_api", Kind::MmapInput, 2000),
+        ("codec/var_int", Kind::CodecVarInt, 3000),
+        ("codec/simd_varint", Kind::CodecSimdVarint, 2500),
+        ("codec/strategy_single", Kind::CodecStrategySingle, 3500),
+        ("codec/strategy_sequence", Kind::CodecStrategySequence, 4000),
+        ("codec/endian", Kind::CodecEndian, 2500),
+        ("file_mmap/sessions", Kind::Sessions, 1500),
+        ("slice_vec/reuse", Kind::VecReuse, 1500),
+        ("inputs/refused_ops", Kind::RefusedOps, 4000),
     ] {
         spec.scenarios.push(Box::new(Sc { name, kind, quick }));
     }
